@@ -1,1569 +1,11 @@
 /-
-C08 — progress: against a protocol-conformant server the bot never is the one that stalls.
-
-`View` is what a conformant server owes the client, computed from the lines both sides sent (a monitor,
-not part of the model).  `SrvMove` lists the messages a conformant server may send in a given view
-(DESIGN §6 C08 `progress`, clauses i–v; each CAP REQ is answered by one ACK or NAK of the same list).
-`PReach` = the joint histories.  Theorem `progress` (Props.lean): in every jointly reachable state the
-bot is connected (end of MOTD), or it aborted deliberately, or the server owes it an answer.
-Stub-driver semantics: an abort (driver.reconnect) ends the connection epoch.
+C08 — progress, part 3: joint histories of the bot and a conformant server, the invariant along them, and an
+executable acceptor for the conformant-server relation.
 -/
-import LimnoriaModel.C08.Trace
+import LimnoriaModel.C08.ProgressCap
 namespace C08
 open Py
 open Gen.Conn (Fsm)
-
-def sLS : Str := ['L','S']
-def sACK : Str := ['A','C','K']
-def sNAK : Str := ['N','A','K']
-
-inductive AuthSt where
-  | none      -- nothing owed
-  | mech      -- a mechanism was requested: `AUTHENTICATE +`, a challenge or a failure numeric is owed
-  | more      -- a credentials line of exactly AUTHENTICATE_CHUNK_SIZE characters arrived: more must follow, the
-              -- server owes nothing yet
-  | payload   -- a complete answer arrived: 903 / 904… / the next challenge is owed
-deriving DecidableEq, Repr
-
-/-- the server owes an answer in the SASL exchange -/
-def AuthSt.owed (a : AuthSt) : Bool := a = .mech || a = .payload
-
-structure View where
-  v3 : Bool                     -- the server implements capability negotiation (else it ignores CAP)
-  lsOwed : Bool := true         -- CAP LS sent, final CAP LS not received yet
-  reqs : List (List Str) := []  -- CAP REQ lines not answered yet, oldest first
-  auth : AuthSt := .none        -- SASL: answer owed to a mechanism request / to a complete payload
-  ended : Bool := false         -- CAP END sent
-  stage : Nat := 0              -- welcome: k = 00k received (1..5), 6 = 375 received, 7 = 376/422 received
-  aborted : Bool := false       -- the bot called driver.reconnect()
-
-/-- the client lines of one step, as the server sees them -/
-def seeOut (v : View) : Out → View
-  | .capReq ws => { v with reqs := v.reqs ++ [ws] }
-  | .capEnd => { v with ended := true }
-  | .authMech _ => { v with auth := .mech }
-  | .authPayload c => { v with auth := if c.length = Gen.Conn.authenticateChunkSize then .more else .payload }
-  | .authOpaque => { v with auth := .payload }
-  | .authAbort => { v with auth := .payload }
-  | _ => v
-
-def seeStep (v : View) (r : StepResult) : View :=
-  let v' := r.fast.foldl seeOut v
-  { v' with aborted := v'.aborted || !r.events.isEmpty }
-
-/-- the registration may complete: the server never negotiates, or the client ended the negotiation -/
-def canWelcome (v : View) : Bool := !v.v3 || v.ended
-
-def isFailNumeric (c : Str) : Bool :=
-  c = num '9' '0' '4' || c = num '9' '0' '5' || c = num '9' '0' '6' || c = num '9' '0' '7'
-
-def isNickRefusal (c : Str) : Bool := c = num '4' '3' '2' || c = num '4' '3' '3' || c = num '4' '3' '7'
-
-def welcomeNumeric (k : Nat) : Str :=
-  if k = 1 then num '0' '0' '1' else if k = 2 then num '0' '0' '2' else if k = 3 then num '0' '0' '3'
-  else if k = 4 then num '0' '0' '4' else num '0' '0' '5'
-
-/-- the messages a conformant server may send in view `v`, and the view afterwards (before the client's
-reaction is seen) -/
-inductive SrvMove : View → Msg → View → Prop
-  | ping (v : View) (x n : Str) : SrvMove v ⟨sPING, [x], n⟩ v
-  /-- anything the bot has no handler for and that is not a nick-setting numeric (NOTICE, 900, 372, …) -/
-  | noop (v : View) (m : Msg) (hd : dispatch m = .none) (hn : Gen.Conn.nickSetters.contains m.command = false) : SrvMove v m v
-  | lsMore (v : View) (t caps n : Str) (h3 : v.v3 = true) (ho : v.lsOwed = true) :
-      SrvMove v ⟨sCAP, [t, sLS, sStar, caps], n⟩ v
-  | lsFinal (v : View) (t caps n : Str) (h3 : v.v3 = true) (ho : v.lsOwed = true) :
-      SrvMove v ⟨sCAP, [t, sLS, caps], n⟩ { v with lsOwed := false }
-  | ack (v : View) (t caps n : Str) (ws : List Str) (rest : List (List Str)) (h3 : v.v3 = true)
-      (hq : v.reqs = ws :: rest) (hw : splitWs caps = ws) : SrvMove v ⟨sCAP, [t, sACK, caps], n⟩ { v with reqs := rest }
-  | nak (v : View) (t caps n : Str) (ws : List Str) (rest : List (List Str)) (h3 : v.v3 = true)
-      (hq : v.reqs = ws :: rest) (hw : splitWs caps = ws) : SrvMove v ⟨sCAP, [t, sNAK, caps], n⟩ { v with reqs := rest }
-  /-- `AUTHENTICATE +` or a complete, well-formed challenge -/
-  | authContinue (v : View) (c n : Str) (h3 : v.v3 = true) (ha : v.auth.owed = true)
-      (hc : c = sPlus ∨ (c.length ≠ Gen.Conn.authenticateChunkSize ∧ (b64decodedLen [c]).isSome = true)) :
-      SrvMove v ⟨sAUTHENTICATE, [c], n⟩ { v with auth := .none }
-  | authOk (v : View) (args : List Str) (n : Str) (h3 : v.v3 = true) (ha : v.auth = .payload) :
-      SrvMove v ⟨num '9' '0' '3', args, n⟩ { v with auth := .none }
-  | authFail (v : View) (c : Str) (args : List Str) (n : Str) (h3 : v.v3 = true) (ha : v.auth.owed = true)
-      (hc : isFailNumeric c = true) : SrvMove v ⟨c, args, n⟩ { v with auth := .none }
-  /-- RPL_SASLMECHS: the failure numeric is still owed -/
-  | mechs (v : View) (args : List Str) (n : Str) (ha : v.auth = .mech) : SrvMove v ⟨num '9' '0' '8', args, n⟩ v
-  | nickRefused (v : View) (c : Str) (args : List Str) (n : Str) (hs : v.stage = 0) (hc : isNickRefusal c = true) :
-      SrvMove v ⟨c, args, n⟩ v
-  | welcome (v : View) (k : Nat) (a : Str) (args : List Str) (n : Str) (hw : canWelcome v = true)
-      (hk : 1 ≤ k ∧ k ≤ 5) (hs : v.stage + 1 = k) : SrvMove v ⟨welcomeNumeric k, a :: args, n⟩ { v with stage := k }
-  | motdStart (v : View) (a : Str) (args : List Str) (n : Str) (hw : canWelcome v = true) (hs : v.stage = 5) :
-      SrvMove v ⟨num '3' '7' '5', a :: args, n⟩ { v with stage := 6 }
-  /-- RPL_MOTD (372), a nick-setting numeric without a handler of its own -/
-  | motdLine (v : View) (a : Str) (args : List Str) (n : Str) (hw : canWelcome v = true) (hs : v.stage = 6) :
-      SrvMove v ⟨num '3' '7' '2', a :: args, n⟩ v
-  | motdEnd (v : View) (a : Str) (args : List Str) (n : Str) (hw : canWelcome v = true) (hs : v.stage = 6) :
-      SrvMove v ⟨num '3' '7' '6', a :: args, n⟩ { v with stage := 7 }
-  | noMotd (v : View) (args : List Str) (n : Str) (hw : canWelcome v = true) (hs : v.stage = 5) :
-      SrvMove v ⟨num '4' '2' '2', args, n⟩ { v with stage := 7 }
-
-/-! ### the handlers under the recording stub driver -/
-
-variable {cfg : Cfg}
-
-theorem stub_reconnect (hd : cfg.realDriver = false) (w : Bool) (srv : Option Server) (s : St) :
-    drvReconnect cfg w srv s = event (.reconnect w srv) s := by
-  unfold drvReconnect; simp [hd]
-
-theorem tabP_capEnd : Gen.Conn.guardCapEnd.contains .INIT_CAP_NEGOTIATION = true ∧ Gen.Conn.toCapEnd = .INIT_WAITING_MOTD := by decide
-theorem tabP_upkeep : Gen.Conn.expectCapUpkeep.contains .INIT_CAP_NEGOTIATION = true ∧
-    Gen.Conn.expectCapUpkeep.contains .INIT_SASL = false ∧ Gen.Conn.expectCapUpkeep.contains .INIT_WAITING_MOTD = false ∧
-    Gen.Conn.expectCapUpkeep.contains .INIT_MOTD = false := by decide
-theorem tabP_ls : Gen.Conn.expectDoCapLs.contains .INIT_CAP_NEGOTIATION = true := by decide
-theorem tabP_sasl : Gen.Conn.onSaslCap.lookup .INIT_CAP_NEGOTIATION = some .INIT_SASL ∧
-    Gen.Conn.onSaslAuthFinished.lookup .INIT_SASL = some .INIT_CAP_NEGOTIATION ∧
-    Gen.Conn.expectTryNextSasl.contains .INIT_SASL = true ∧ Gen.Conn.expectDoAuthenticate.contains .INIT_SASL = true ∧
-    Gen.Conn.expectDo903.contains .INIT_SASL = true := by decide
-theorem tabP_motd : Gen.Conn.toStartMotd = .INIT_MOTD ∧ Gen.Conn.toEndMotd = .CONNECTED ∧
-    Gen.Conn.guardStartMotd.contains .INIT_CAP_NEGOTIATION = true ∧ Gen.Conn.guardStartMotd.contains .INIT_WAITING_MOTD = true ∧
-    Gen.Conn.guardEndMotd.contains .INIT_CAP_NEGOTIATION = true ∧ Gen.Conn.guardEndMotd.contains .INIT_WAITING_MOTD = true ∧
-    Gen.Conn.guardEndMotd.contains .INIT_MOTD = true := by decide
-
-/-- Irc.endCapabilityNegociation in INIT_CAP_NEGOTIATION: abort when SASL is required and missing, else CAP END -/
-theorem endCap_neg (hd : cfg.realDriver = false) (s : St) (hf : s.fsm = .INIT_CAP_NEGOTIATION) :
-    endCap cfg s = (if saslMissing cfg s = true then ok (event (.reconnect true none) s)
-      else ok (sendMsg .capEnd { s with fsm := .INIT_WAITING_MOTD, endCount := s.endCount + 1 })) := by
-  unfold endCap
-  split
-  · rw [stub_reconnect hd]
-  · unfold onCapEnd transition
-    simp only [hf, tabP_capEnd.1, if_true, bind_ok, tabP_capEnd.2]
-
-/-- Irc.tryNextSaslMechanism in INIT_SASL -/
-theorem tryNext_sasl (hd : cfg.realDriver = false) (s : St) (hf : s.fsm = .INIT_SASL) :
-    tryNextSasl cfg s =
-      (match s.saslNext with
-       | m :: rest => ok (sendMsg (.authMech (asciiUpper m)) { s with saslCur := some m, saslNext := rest })
-       | [] => if cfg.required = true then ok (event (.reconnect true none) s)
-               else ok (sendMsg .capEnd { s with saslCur := none, fsm := .INIT_WAITING_MOTD, endCount := s.endCount + 1 })) := by
-  unfold tryNextSasl expectState
-  simp only [hf, tabP_sasl.2.2.1, if_true, bind_ok]
-  cases hn : s.saslNext with
-  | cons m rest => rfl
-  | nil =>
-    simp only
-    split
-    · rw [stub_reconnect hd]
-    · rename_i hr
-      unfold onSaslAuthFinished tableTransition
-      simp only [hf, tabP_sasl.2.1, bind_ok, if_true]
-      rw [endCap_neg hd _ rfl]
-      have hr' : cfg.required = false := by simpa using hr
-      simp [saslMissing, hr']
-
-/-- Irc.capUpkeep in INIT_CAP_NEGOTIATION -/
-theorem capUpkeep_neg (hd : cfg.realDriver = false) (s : St) (hf : s.fsm = .INIT_CAP_NEGOTIATION) :
-    capUpkeep cfg s =
-      (if !subset (s.ack ++ s.nak) s.req then ok (event (.reconnect true none) s)
-       else if subset s.req (s.ack ++ s.nak) then
-         (if s.ack.contains sSasl then maybeStartSasl cfg s else endCap cfg s)
-       else ok s) := by
-  unfold capUpkeep expectState
-  simp only [hf, tabP_upkeep.1, if_true, bind_ok, true_or]
-  split
-  · rw [stub_reconnect hd]
-  · split
-    · split
-      · rfl
-      · simp
-    · rfl
-
-/-- Irc.capUpkeep outside INIT_CAP_NEGOTIATION / CONNECTED: the state check raises -/
-theorem capUpkeep_raises (s : St) (hf : Gen.Conn.expectCapUpkeep.contains s.fsm = false) :
-    capUpkeep cfg s = raise "ValueError" s := by
-  unfold capUpkeep expectState
-  rw [if_neg (by rw [hf]; exact Bool.false_ne_true)]
-  rfl
-
-/-- the mechanisms left after the filter of Irc._maybeStartSasl -/
-def filteredNext (next : List Str) (v : Option Str) : List Str :=
-  match v with
-  | none => next
-  | some x => filterMechs next x
-
-/-- Irc._maybeStartSasl when it starts: INIT_CAP_NEGOTIATION, not authenticated, sasl acknowledged and listed -/
-theorem maybeStartSasl_neg (s : St) (hf : s.fsm = .INIT_CAP_NEGOTIATION) (ha : s.saslAuth = false)
-    (hack : s.ack.contains sSasl = true) (v : Option Str) (hls : dictGet s.ls sSasl = some v) :
-    maybeStartSasl cfg s = tryNextSasl cfg { s with fsm := .INIT_SASL, saslNext := filteredNext s.saslNext v } := by
-  unfold maybeStartSasl onSaslCap tableTransition
-  simp only [ha, hack, Bool.not_false, Bool.and_self, if_true, hf, tabP_sasl.1, bind_ok, hls]
-  cases v <;> rfl
-
-theorem sendSaslString_eq (bytes : List Nat) (s : St) :
-    sendSaslString bytes s =
-      { s with fastq := s.fastq ++ (authChunks Gen.Conn.authenticateChunkSize (b64encode bytes)).map Out.authPayload } := by
-  unfold sendSaslString
-  generalize authChunks Gen.Conn.authenticateChunkSize (b64encode bytes) = l
-  induction l generalizing s with
-  | nil => simp
-  | cons c cs ih => rw [List.foldl_cons, ih]; simp [sendMsg]
-
-theorem authChunks_ne (sz : Nat) (a : Str) : authChunks sz a ≠ [] := by
-  unfold authChunks authChunksAux
-  split <;> simp
-
-/-- shape of the output of `authenticate_generator`: full-size pieces followed by one final piece that is
-shorter (or `+` when nothing is left), together spelling the base64 text -/
-def ChunksOk (sz : Nat) (a : Str) (l : List Str) : Prop :=
-  ∃ pieces final, l = pieces ++ [final] ∧ (∀ p ∈ pieces, p.length = sz) ∧
-    ((final.length < sz ∧ final ≠ [] ∧ pieces.flatten ++ final = a) ∨ (final = sPlus ∧ pieces.flatten = a))
-
-theorem authChunksAux_ok (sz : Nat) (hsz : 0 < sz) : ∀ (fuel : Nat) (a : Str), a.length < fuel →
-    ChunksOk sz a (authChunksAux sz fuel a) := by
-  intro fuel
-  induction fuel with
-  | zero => intro a h; omega
-  | succ k ih =>
-    intro a h
-    unfold authChunksAux
-    by_cases hlt : a.length < sz
-    · rw [if_pos hlt]
-      by_cases he : a.isEmpty = true
-      · rw [if_pos he]
-        have : a = [] := by simpa using he
-        exact ⟨[], sPlus, rfl, by simp, .inr ⟨rfl, by simp [this]⟩⟩
-      · rw [if_neg he]
-        have : a ≠ [] := by simpa using he
-        exact ⟨[], a, rfl, by simp, .inl ⟨hlt, this, by simp⟩⟩
-    · rw [if_neg hlt]
-      have hlen : (a.drop sz).length < k := by simp [List.length_drop]; omega
-      obtain ⟨pieces, final, h1, h2, h3⟩ := ih (a.drop sz) hlen
-      refine ⟨a.take sz :: pieces, final, by rw [h1]; rfl, ?_, ?_⟩
-      · intro p hp
-        simp only [List.mem_cons] at hp
-        rcases hp with rfl | hp
-        · simp [List.length_take]; omega
-        · exact h2 p hp
-      · rcases h3 with ⟨a1, a2, a3⟩ | ⟨a1, a3⟩
-        · exact .inl ⟨a1, a2, by simp only [List.flatten_cons, List.append_assoc]; rw [a3]; exact List.take_append_drop sz a⟩
-        · exact .inr ⟨a1, by simp only [List.flatten_cons]; rw [a3]; exact List.take_append_drop sz a⟩
-
-/-- `authenticate_generator`: for every text, the lines are full-size pieces followed by one final line
-that is shorter than the chunk size or `+`; concatenated (the terminating `+` dropped) they are the text -/
-theorem chunks_ok (sz : Nat) (hsz : 0 < sz) (a : Str) : ChunksOk sz a (authChunks sz a) :=
-  authChunksAux_ok sz hsz (a.length + 1) a (Nat.lt_succ_self _)
-
-theorem tabP_chunk : 1 < Gen.Conn.authenticateChunkSize := by decide
-
-def isPayloadOut : Out → Bool
-  | .authPayload _ => true
-  | .authOpaque => true
-  | .authAbort => true
-  | _ => false
-
-/-- a line that completes an answer: shorter than the chunk size (or the signature / abort marker) -/
-def isFinalOut : Out → Bool
-  | .authPayload c => c.length != Gen.Conn.authenticateChunkSize
-  | .authOpaque => true
-  | .authAbort => true
-  | _ => false
-
-/-- the lines of one answer: credentials lines only, the last one completing it -/
-def Answer (outs : List Out) : Prop :=
-  (∀ o ∈ outs, isPayloadOut o = true) ∧ ∃ init o, outs = init ++ [o] ∧ isFinalOut o = true
-
-theorem sendSasl_sends (bytes : List Nat) (s : St) :
-    ∃ outs, Answer outs ∧ sendSaslString bytes s = { s with fastq := s.fastq ++ outs } := by
-  refine ⟨(authChunks Gen.Conn.authenticateChunkSize (b64encode bytes)).map Out.authPayload, ⟨?_, ?_⟩, sendSaslString_eq bytes s⟩
-  · intro o ho; simp only [List.mem_map] at ho; obtain ⟨c, _, rfl⟩ := ho; rfl
-  · obtain ⟨pieces, final, h1, _, h3⟩ := chunks_ok Gen.Conn.authenticateChunkSize (by have := tabP_chunk; omega) (b64encode bytes)
-    refine ⟨pieces.map Out.authPayload, .authPayload final, by rw [h1]; simp, ?_⟩
-    have hlen : final.length ≠ Gen.Conn.authenticateChunkSize := by
-      rcases h3 with ⟨a1, _, _⟩ | ⟨a1, _⟩
-      · omega
-      · rw [a1]; have := tabP_chunk; simp [sPlus]; omega
-    simp [isFinalOut, hlen]
-
-/-- the answer of the bot to a complete server AUTHENTICATE when its current mechanism is one it
-made available itself: at least one credentials / abort line, nothing else changes -/
-theorem authRespond_sends (n : Nat) (s : St) (m : Str) (hc : s.saslCur = some m) (hm : mechAvailable cfg m = true) :
-    ∃ outs, Answer outs ∧ (authRespond cfg n s).st = { s with fastq := s.fastq ++ outs } := by
-  unfold authRespond
-  split
-  · rename_i h; rw [hc] at h; cases h
-  · rename_i m' h
-    rw [hc] at h; injection h with h; subst h
-    by_cases h1 : m = sEcdsa
-    · simp only [h1, if_true]
-      split
-      · exact sendSasl_sends _ s
-      · split
-        · exact ⟨[.authOpaque], ⟨by simp [isPayloadOut], [], .authOpaque, rfl, rfl⟩, rfl⟩
-        · exact ⟨[.authAbort], ⟨by simp [isPayloadOut], [], .authAbort, rfl, rfl⟩, rfl⟩
-    · simp only [h1, if_false]
-      by_cases h2 : m = sExternal
-      · simp only [h2, if_true]; exact sendSasl_sends _ s
-      · simp only [h2, if_false]
-        unfold mechAvailable at hm
-        simp only [h1, h2, if_false] at hm
-        by_cases h3 : sScramPfx.isPrefixOf m = true
-        · simp [h3] at hm
-        · simp only [h3, if_false] at hm ⊢
-          by_cases h4 : m = sPlain
-          · simp only [h4, if_true]; exact sendSasl_sends _ s
-          · simp [h4] at hm
-
-/-- everything the progress invariant looks at, except the queues -/
-def pcore (s : St) :=
-  (s.fsm, s.ls, s.req, s.ack, s.nak, s.saslNext, s.saslCur, s.saslAuth, s.dec, s.nick, s.altNicks, s.tried, s.afterConnect, s.ev)
-
-/-- Irc.doAuthenticate in INIT_SASL on a complete, well-formed server AUTHENTICATE with no pending chunks -/
-theorem doAuthenticate_sasl (s : St) (c : Str) (hf : s.fsm = .INIT_SASL) (hdec : s.dec = none)
-    (hc : c = sPlus ∨ (c.length ≠ Gen.Conn.authenticateChunkSize ∧ (b64decodedLen [c]).isSome = true))
-    (m : Str) (hcur : s.saslCur = some m) (hm : mechAvailable cfg m = true) :
-    ∃ outs, Answer outs ∧
-      (doAuthenticate cfg sAUTHENTICATE [c] s).st.fastq = s.fastq ++ outs ∧
-      pcore (doAuthenticate cfg sAUTHENTICATE [c] s).st = pcore s := by
-  have hcd : curDecoder s = ⟨[], false⟩ := by simp [curDecoder, hdec]
-  have hready : (decoderFeed (curDecoder s) c).ready = true := by
-    rw [hcd]; unfold decoderFeed
-    rcases hc with rfl | ⟨h, _⟩
-    · simp
-    · simp [h]
-  have hchunks : (b64decodedLen (decoderFeed (curDecoder s) c).chunks).isSome = true := by
-    rw [hcd]; unfold decoderFeed
-    rcases hc with rfl | ⟨h, h2⟩
-    · simp only [if_true]; decide
-    · by_cases hp : c = sPlus
-      · subst hp; simp only [if_true]; decide
-      · simp only [hp, if_false, List.nil_append]; exact h2
-  have hexp : expectState Gen.Conn.expectDoAuthenticate s = ok s := by
-    unfold expectState; rw [hf, if_pos tabP_sasl.2.2.2.1]
-  unfold doAuthenticate
-  rw [hexp, bind_ok]
-  simp only [ne_eq, not_true_eq_false, if_false, hready, Bool.not_true, Bool.false_eq_true]
-  cases hb : b64decodedLen (decoderFeed (curDecoder s) c).chunks with
-  | none => rw [hb] at hchunks; cases hchunks
-  | some n =>
-    simp only
-    obtain ⟨outs, h1, h3⟩ := authRespond_sends (cfg := cfg) n ({ s with dec := none } : St) m hcur hm
-    refine ⟨outs, h1, ?_, ?_⟩
-    · rw [h3]
-    · rw [h3]; simp [pcore, hdec]
-
-/-! ### what one step does, in terms of the handler -/
-
-/-- the fields of the Irc object the progress invariant talks about -/
-structure Bot where
-  fsm : Fsm
-  ls : List (Str × Option Str)
-  req : List Str
-  ack : List Str
-  nak : List Str
-  saslNext : List Str
-  saslCur : Option Str
-  saslAuth : Bool
-  dec : Option Decoder
-  nick : Str
-  altNicks : List Str
-  tried : List Str
-  afterConnect : Bool
-
-def bot (s : St) : Bot :=
-  ⟨s.fsm, s.ls, s.req, s.ack, s.nak, s.saslNext, s.saslCur, s.saslAuth, s.dec, s.nick, s.altNicks, s.tried, s.afterConnect⟩
-
-theorem bot_drain (s : St) : bot (drain s) = bot s := rfl
-theorem bot_callbacks (m : Msg) (s : St) : bot (callbacks cfg m s) = bot s := by
-  unfold callbacks; split <;> rfl
-theorem ev_callbacks (m : Msg) (s : St) : (callbacks cfg m s).ev = s.ev := by
-  unfold callbacks; split <;> rfl
-
-/-- one step, when the nick-setting prelude of feedMsg leaves `s1` -/
-theorem step_facts (s s1 : St) (m : Msg) (hn : nickSetter m s = ok s1) :
-    (step cfg s m).fast = (runHandler cfg m s1).st.fastq ∧
-    (step cfg s m).events = (runHandler cfg m s1).st.ev ∧
-    bot (step cfg s m).st = bot (runHandler cfg m s1).st := by
-  unfold step observeStep feedMsg
-  rw [hn, bind_ok]
-  unfold R.bind
-  cases (runHandler cfg m s1).exc with
-  | some e => exact ⟨rfl, rfl, rfl⟩
-  | none =>
-    simp only [ok]
-    exact ⟨callbacks_fastq m _, ev_callbacks m _, by rw [bot_drain, bot_callbacks]⟩
-
-theorem nickSetter_plain (m : Msg) (s : St) (h : Gen.Conn.nickSetters.contains m.command = false) :
-    nickSetter m s = ok s := by
-  unfold nickSetter; rw [if_neg (by rw [h]; exact Bool.false_ne_true)]
-
-theorem nickSetter_numeric (c a : Str) (args : List Str) (n : Str) (s : St)
-    (h : Gen.Conn.nickSetters.contains c = true) :
-    nickSetter ⟨c, a :: args, n⟩ s = ok { s with nick := a } := by
-  unfold nickSetter; rw [if_pos h]
-
-/-! ### `_addCapabilities` under the stub driver: the advertised set grows; an `sts` item may abort -/
-
-/-- relation between the state before and after `_addCapabilities`: the queue is untouched, driver
-events are only appended, and if none was appended nothing but `capabilities_ls` (which only gains keys)
-and the STS store changed -/
-def AddRel (s s' : St) : Prop :=
-  s'.fastq = s.fastq ∧ ∃ extra, s'.ev = s.ev ++ extra ∧
-    (extra = [] → { bot s' with ls := [] } = { bot s with ls := [] } ∧ ∀ k ∈ keys s.ls, k ∈ keys s'.ls)
-
-theorem AddRel.refl (s : St) : AddRel s s := ⟨rfl, [], by simp, fun _ => ⟨rfl, fun _ h => h⟩⟩
-
-theorem AddRel.trans {a b c : St} (h1 : AddRel a b) (h2 : AddRel b c) : AddRel a c := by
-  obtain ⟨q1, e1, he1, f1⟩ := h1
-  obtain ⟨q2, e2, he2, f2⟩ := h2
-  refine ⟨q2.trans q1, e1 ++ e2, by rw [he2, he1, List.append_assoc], fun h => ?_⟩
-  have h1' : e1 = [] := (List.append_eq_nil_iff.mp h).1
-  have h2' : e2 = [] := (List.append_eq_nil_iff.mp h).2
-  obtain ⟨b1, k1⟩ := f1 h1'
-  obtain ⟨b2, k2⟩ := f2 h2'
-  exact ⟨b2.trans b1, fun k hk => k2 k (k1 k hk)⟩
-
-theorem keys_dictSet {β : Type} (d : List (Str × β)) (k : Str) (v : β) : ∀ x ∈ keys d, x ∈ keys (dictSet d k v) := by
-  induction d with
-  | nil => intro x hx; simp [keys] at hx
-  | cons p ps ih =>
-    obtain ⟨k', v'⟩ := p
-    intro x hx
-    unfold dictSet
-    split
-    · rename_i he; simp only [keys, List.map_cons, List.mem_cons] at hx ⊢
-      rcases hx with rfl | hx
-      · exact .inl he
-      · exact .inr hx
-    · simp only [keys, List.map_cons, List.mem_cons] at hx ⊢
-      rcases hx with rfl | hx
-      · exact .inl rfl
-      · exact .inr (ih x hx)
-
-theorem mem_keys_dictSet {β : Type} (d : List (Str × β)) (k : Str) (v : β) : k ∈ keys (dictSet d k v) := by
-  induction d with
-  | nil => simp [dictSet, keys]
-  | cons p ps ih =>
-    obtain ⟨k', v'⟩ := p
-    unfold dictSet
-    split
-    · simp [keys]
-    · simp only [keys, List.map_cons, List.mem_cons]; exact .inr ih
-
-theorem addRel_setLs (k : Str) (v : Option Str) (s : St) : AddRel s (setLs k v s) :=
-  ⟨rfl, [], by simp [setLs], fun _ => ⟨rfl, keys_dictSet s.ls k v⟩⟩
-
-theorem addRel_event (o : Out) (s : St) : AddRel s (event o s) :=
-  ⟨rfl, [o], rfl, fun h => by cases h⟩
-
-theorem addRel_onCapSts (hd : cfg.realDriver = false) (policy : Str) (s : St) : AddRel s (onCapSts cfg policy s) := by
-  unfold onCapSts
-  split
-  · exact .refl s
-  · split
-    · exact ⟨rfl, [], by simp, fun _ => ⟨rfl, fun _ h => h⟩⟩
-    · rw [stub_reconnect hd]
-      exact ⟨rfl, [.reconnect true (some ⟨s.drv.current.host, _, s.drv.current.attempt, true⟩)], rfl, fun h => by cases h⟩
-
-theorem addRel_addCapability (hd : cfg.realDriver = false) (s : St) (item : Str) : AddRel s (addCapability cfg s item) := by
-  unfold addCapability
-  split
-  · split
-    · exact (addRel_onCapSts hd _ s).trans (addRel_setLs _ _ _)
-    · exact addRel_setLs _ _ _
-  · split
-    · rw [stub_reconnect hd]; exact (addRel_event _ s).trans (addRel_setLs _ _ _)
-    · exact addRel_setLs _ _ _
-
-theorem addRel_addCapabilities (hd : cfg.realDriver = false) (caps : Str) (s : St) :
-    AddRel s (addCapabilities cfg caps s) := by
-  unfold addCapabilities
-  generalize splitWs caps = l
-  induction l generalizing s with
-  | nil => exact .refl s
-  | cons c cs ih => simp only [List.foldl_cons]; exact (addRel_addCapability hd s c).trans (ih _)
-
-/-! ### the joint invariant -/
-
-structure Common (cfg : Cfg) (b : Bot) (v : View) : Prop where
-  mechsNext : ∀ m ∈ b.saslNext, mechAvailable cfg m = true
-  mechsCur : ∀ m, b.saslCur = some m → mechAvailable cfg m = true
-  nick0 : v.stage = 0 → b.nick = cfg.nick ∧ cfg.nick ∈ b.tried ∧ b.afterConnect = false
-
-inductive Phase (cfg : Cfg) (b : Bot) (v : View) : Prop
-  /-- capability negotiation: the final LS, or the answer to a CAP REQ, is owed -/
-  | neg (h3 : v.v3 = true) (he : v.ended = false) (hs : v.stage = 0) (hf : b.fsm = .INIT_CAP_NEGOTIATION)
-      (ha : v.auth = .none) (hauth : b.saslAuth = false) (hd : b.dec = none)
-      (hls : v.lsOwed = true → b.req = [] ∧ b.ack = [] ∧ b.nak = [] ∧ v.reqs = [])
-      (howe : v.lsOwed = false → v.reqs ≠ [])
-      (hacc : ∀ c ∈ b.req, c ∈ b.ack ∨ c ∈ b.nak ∨ c ∈ v.reqs.flatten)
-      (hkeys : (∀ c ∈ b.ack, c ∈ keys b.ls) ∧ (∀ c ∈ v.reqs.flatten, c ∈ keys b.ls))
-      (hne : ∀ l ∈ v.reqs, l ≠ [])
-  /-- SASL exchange: an answer to the mechanism request or to the credentials is owed -/
-  | sasl (h3 : v.v3 = true) (he : v.ended = false) (hs : v.stage = 0) (hf : b.fsm = .INIT_SASL)
-      (ha : v.auth.owed = true) (hauth : b.saslAuth = false) (hd : b.dec = none) (hcur : b.saslCur ≠ none)
-      (hl : v.lsOwed = false) (hres : ∀ c ∈ b.req, c ∈ b.ack ∨ c ∈ b.nak)
-  /-- CAP END sent: the welcome numerics are owed -/
-  | waiting (h3 : v.v3 = true) (he : v.ended = true) (hs : v.stage ≤ 5) (hf : b.fsm = .INIT_WAITING_MOTD)
-      (ha : v.auth = .none) (hl : v.lsOwed = false) (hres : ∀ c ∈ b.req, c ∈ b.ack ∨ c ∈ b.nak)
-  /-- a server without capability negotiation: the welcome numerics are owed from the start -/
-  | nocap (h3 : v.v3 = false) (hs : v.stage ≤ 5) (hf : b.fsm = .INIT_CAP_NEGOTIATION) (ha : v.auth = .none)
-      (hreq : b.req = [])
-  | motd (hw : canWelcome v = true) (hs : v.stage = 6) (hf : b.fsm = .INIT_MOTD) (ha : v.auth = .none)
-      (hl : v.v3 = true → v.lsOwed = false) (hres : ∀ c ∈ b.req, c ∈ b.ack ∨ c ∈ b.nak)
-
-/-- the conformant server still owes the client something (it has a move that is not a PING / notice) -/
-def Owes (v : View) : Prop :=
-  (v.v3 = true ∧ (v.lsOwed = true ∨ v.reqs ≠ [] ∨ v.auth.owed = true)) ∨ (canWelcome v = true ∧ v.stage < 7)
-
-theorem owes_of_phase {cfg : Cfg} {b : Bot} {v : View} (p : Phase cfg b v) : Owes v := by
-  cases p with
-  | neg h3 he hs hf ha hauth hd hls howe hacc hkeys hne =>
-    left; refine ⟨h3, ?_⟩
-    cases h : v.lsOwed with
-    | true => exact .inl rfl
-    | false => exact .inr (.inl (howe h))
-  | sasl h3 he hs hf ha hauth hd hcur hl _ => exact .inl ⟨h3, .inr (.inr ha)⟩
-  | waiting h3 he hs hf ha hl _ => exact .inr ⟨by simp [canWelcome, he], by omega⟩
-  | nocap h3 hs hf ha _ => exact .inr ⟨by simp [canWelcome, h3], by omega⟩
-  | motd hw hs hf ha hl _ => exact .inr ⟨hw, by omega⟩
-
-/-- aborted deliberately, or connected (end of MOTD seen), or the registration is in one of its phases -/
-def Inv (cfg : Cfg) (s : St) (v : View) : Prop :=
-  v.aborted = true ∨ s.afterConnect = true ∨ (Common cfg (bot s) v ∧ Phase cfg (bot s) v)
-
-/-! ### what the server sees of a step -/
-
-theorem seeOut_aborted (v : View) (o : Out) : (seeOut v o).aborted = v.aborted := by
-  cases o <;> rfl
-
-theorem fold_aborted (l : List Out) (v : View) : (l.foldl seeOut v).aborted = v.aborted := by
-  induction l generalizing v with
-  | nil => rfl
-  | cons o os ih => simp only [List.foldl_cons, ih, seeOut_aborted]
-
-theorem seeStep_aborted (v : View) (r : StepResult) (h : r.events ≠ []) : (seeStep v r).aborted = true := by
-  unfold seeStep
-  cases he : r.events with
-  | nil => exact absurd he h
-  | cons _ _ => simp
-
-theorem seeStep_quiet (v : View) (r : StepResult) (h : r.events = []) (ha : v.aborted = false) :
-    seeStep v r = r.fast.foldl seeOut v := by
-  unfold seeStep
-  have := fold_aborted r.fast v
-  simp only [h, List.isEmpty_nil, Bool.not_true, Bool.or_false]
-
-/-! ### the moves that leave the phase alone -/
-
-theorem run_capLs {cfg : Cfg} {m : Msg} (hd : dispatch m = .capLs) (s : St) : runHandler cfg m s = doCapLs cfg m.args s := by
-  unfold runHandler; rw [hd]
-
-theorem run_capAck {cfg : Cfg} {m : Msg} (hd : dispatch m = .capAck) (s : St) : runHandler cfg m s = doCapAckNak cfg true m.args s := by
-  unfold runHandler; rw [hd]
-
-theorem run_capNak {cfg : Cfg} {m : Msg} (hd : dispatch m = .capNak) (s : St) : runHandler cfg m s = doCapAckNak cfg false m.args s := by
-  unfold runHandler; rw [hd]
-
-theorem run_authenticate {cfg : Cfg} {m : Msg} (hd : dispatch m = .authenticate) (s : St) : runHandler cfg m s = doAuthenticate cfg m.command m.args s := by
-  unfold runHandler; rw [hd]
-
-theorem run_n903 {cfg : Cfg} {m : Msg} (hd : dispatch m = .n903) (s : St) : runHandler cfg m s = do903 cfg s := by
-  unfold runHandler; rw [hd]
-
-theorem run_n904to907 {cfg : Cfg} {m : Msg} (hd : dispatch m = .n904to907) (s : St) : runHandler cfg m s = tryNextSasl cfg s := by
-  unfold runHandler; rw [hd]
-
-theorem run_n908 {cfg : Cfg} {m : Msg} (hd : dispatch m = .n908) (s : St) : runHandler cfg m s = do908 m.args s := by
-  unfold runHandler; rw [hd]
-
-theorem run_n002 {cfg : Cfg} {m : Msg} (hd : dispatch m = .n002) (s : St) : runHandler cfg m s = do002 m.args s := by
-  unfold runHandler; rw [hd]
-
-theorem run_n375 {cfg : Cfg} {m : Msg} (hd : dispatch m = .n375) (s : St) : runHandler cfg m s = do375 cfg s := by
-  unfold runHandler; rw [hd]
-
-theorem run_n376 {cfg : Cfg} {m : Msg} (hd : dispatch m = .n376) (s : St) : runHandler cfg m s = do376 cfg s := by
-  unfold runHandler; rw [hd]
-
-theorem run_n43x {cfg : Cfg} {m : Msg} (hd : dispatch m = .n43x) (s : St) : runHandler cfg m s = do43x cfg s := by
-  unfold runHandler; rw [hd]
-
-theorem run_ping {cfg : Cfg} {m : Msg} (hd : dispatch m = .ping) (s : St) : runHandler cfg m s = doPing m.args s := by
-  unfold runHandler; rw [hd]
-
-theorem run_none {cfg : Cfg} {m : Msg} (hd : dispatch m = .none) (s : St) : runHandler cfg m s = ok s := by
-  unfold runHandler; rw [hd]
-
-/-- a step that changes neither the bot fields nor the view keeps the invariant -/
-theorem inv_unchanged {cfg : Cfg} {s s' : St} {v v' : View} (hb : bot s' = bot s) (hv : v' = v)
-    (h : Common cfg (bot s) v ∧ Phase cfg (bot s) v) : Inv cfg s' v' := by
-  subst hv; rw [← hb] at h; exact .inr (.inr h)
-
-theorem pres_ping {cfg : Cfg} {s : St} {v : View} (x n : Str) (hq : s.fastq = [] ∧ s.ev = []) (ha : v.aborted = false)
-    (h : Common cfg (bot s) v ∧ Phase cfg (bot s) v) :
-    Inv cfg (step cfg s ⟨sPING, [x], n⟩).st (seeStep v (step cfg s ⟨sPING, [x], n⟩)) := by
-  obtain ⟨f1, f2, f3⟩ := step_facts (cfg := cfg) s s ⟨sPING, [x], n⟩ (nickSetter_plain _ _ (show Gen.Conn.nickSetters.contains sPING = false by decide))
-  rw [run_ping (show dispatch ⟨sPING, [x], n⟩ = .ping from rfl)] at f1 f2 f3
-  simp only [doPing, ok, sendMsg, hq.1, hq.2, List.nil_append] at f1 f2 f3
-  refine inv_unchanged f3 ?_ h
-  rw [seeStep_quiet _ _ f2 ha, f1]; rfl
-
-theorem pres_noop {cfg : Cfg} {s : St} {v : View} (m : Msg) (hd : dispatch m = .none)
-    (hn : Gen.Conn.nickSetters.contains m.command = false) (hq : s.fastq = [] ∧ s.ev = []) (ha : v.aborted = false)
-    (h : Common cfg (bot s) v ∧ Phase cfg (bot s) v) : Inv cfg (step cfg s m).st (seeStep v (step cfg s m)) := by
-  obtain ⟨f1, f2, f3⟩ := step_facts (cfg := cfg) s s m (nickSetter_plain _ _ hn)
-  rw [run_none hd] at f1 f2 f3
-  simp only [ok, hq.1, hq.2] at f1 f2 f3
-  refine inv_unchanged f3 ?_ h
-  rw [seeStep_quiet _ _ f2 ha, f1]; rfl
-
-/-- once `afterConnect` is set the invariant holds for good (stub driver: nothing takes it back) -/
-theorem pres_connected {cfg : Cfg} (hd : cfg.realDriver = false) {s : St} (m : Msg) (v : View)
-    (h : s.afterConnect = true) : Inv cfg (step cfg s m).st v :=
-  .inr (.inl (afterConnect_moves hd (ref_feedMsg (cfg := cfg) m s) h))
-
-/-! ### congruence of the phase predicate -/
-
-/-- the bot fields the phases talk about -/
-def pfields (b : Bot) := (b.fsm, b.ls, b.req, b.ack, b.nak, b.saslCur, b.saslAuth, b.dec)
-
-theorem phase_congr {cfg : Cfg} {b b' : Bot} {v : View} (h : pfields b' = pfields b) (p : Phase cfg b v) : Phase cfg b' v := by
-  simp only [pfields, Prod.mk.injEq] at h
-  obtain ⟨e1, e2, e3, e4, e5, e6, e7, e8⟩ := h
-  cases p with
-  | neg h3 he hs hf ha hauth hd hls howe hacc hkeys hne =>
-    exact .neg h3 he hs (e1 ▸ hf) ha (e7 ▸ hauth) (e8 ▸ hd) (by rw [e3, e4, e5]; exact hls) howe
-      (by rw [e3, e4, e5]; exact hacc) (by rw [e2, e4]; exact hkeys) hne
-  | sasl h3 he hs hf ha hauth hd hcur hl hres =>
-    exact .sasl h3 he hs (e1 ▸ hf) ha (e7 ▸ hauth) (e8 ▸ hd) (e6 ▸ hcur) hl (by rw [e3, e4, e5]; exact hres)
-  | waiting h3 he hs hf ha hl hres => exact .waiting h3 he hs (e1 ▸ hf) ha hl (by rw [e3, e4, e5]; exact hres)
-  | nocap h3 hs hf ha hreq => exact .nocap h3 hs (e1 ▸ hf) ha (e3 ▸ hreq)
-  | motd hw hs hf ha hl hres => exact .motd hw hs (e1 ▸ hf) ha hl (by rw [e3, e4, e5]; exact hres)
-
-/-- in the phases in which the welcome may arrive, the stage may advance up to 5 -/
-theorem phase_stage {cfg : Cfg} {b : Bot} {v : View} (k : Nat) (hk : k ≤ 5) (hw : canWelcome v = true) (hs : v.stage ≤ 5)
-    (p : Phase cfg b v) : Phase cfg b { v with stage := k } := by
-  cases p with
-  | neg h3 he _ _ _ _ _ _ _ _ _ _ => simp [canWelcome, h3, he] at hw
-  | sasl h3 he _ _ _ _ _ _ _ _ => simp [canWelcome, h3, he] at hw
-  | waiting h3 he _ hf ha hl hres => exact .waiting h3 he hk hf ha hl hres
-  | nocap h3 _ hf ha hreq => exact .nocap h3 hk hf ha hreq
-  | motd _ hs6 _ _ _ _ => omega
-
-/-! ### welcome numerics 001–005 -/
-
-theorem welcome_setter (k : Nat) (hk : 1 ≤ k ∧ k ≤ 5) : Gen.Conn.nickSetters.contains (welcomeNumeric k) = true := by
-  obtain ⟨h1, h2⟩ := hk
-  have : k = 1 ∨ k = 2 ∨ k = 3 ∨ k = 4 ∨ k = 5 := by omega
-  rcases this with rfl | rfl | rfl | rfl | rfl <;> decide
-
-theorem welcome_dispatch (k : Nat) (hk : 1 ≤ k ∧ k ≤ 5) (a : List Str) (n : Str) :
-    dispatch ⟨welcomeNumeric k, a, n⟩ = .none ∨ dispatch ⟨welcomeNumeric k, a, n⟩ = .n002 := by
-  obtain ⟨h1, h2⟩ := hk
-  have : k = 1 ∨ k = 2 ∨ k = 3 ∨ k = 4 ∨ k = 5 := by omega
-  rcases this with rfl | rfl | rfl | rfl | rfl
-  · exact .inl rfl
-  · exact .inr rfl
-  · exact .inl rfl
-  · exact .inl rfl
-  · exact .inl rfl
-
-theorem do002_st (args : List Str) (s : St) : (do002 args s).st = s := by
-  unfold do002; split
-  · rfl
-  · split <;> rfl
-
-theorem pres_welcome {cfg : Cfg} {s : St} {v : View} (k : Nat) (a : Str) (args : List Str) (n : Str)
-    (hw : canWelcome v = true) (hk : 1 ≤ k ∧ k ≤ 5) (hs : v.stage + 1 = k)
-    (hq : s.fastq = [] ∧ s.ev = []) (ha : v.aborted = false) (h : Common cfg (bot s) v ∧ Phase cfg (bot s) v) :
-    Inv cfg (step cfg s ⟨welcomeNumeric k, a :: args, n⟩).st
-      (seeStep { v with stage := k } (step cfg s ⟨welcomeNumeric k, a :: args, n⟩)) := by
-  obtain ⟨f1, f2, f3⟩ := step_facts (cfg := cfg) s { s with nick := a } ⟨welcomeNumeric k, a :: args, n⟩
-    (nickSetter_numeric _ _ _ _ _ (welcome_setter k hk))
-  have hst : (runHandler cfg ⟨welcomeNumeric k, a :: args, n⟩ { s with nick := a }).st = { s with nick := a } := by
-    rcases welcome_dispatch k hk (a :: args) n with hd | hd
-    · rw [run_none hd]; rfl
-    · rw [run_n002 hd]; exact do002_st _ _
-  rw [hst] at f1 f2 f3
-  simp only [hq.1, hq.2] at f1 f2
-  rw [seeStep_quiet { v with stage := k } _ f2 ha, f1]
-  obtain ⟨hc, hp⟩ := h
-  refine .inr (.inr ⟨⟨?_, ?_, ?_⟩, ?_⟩)
-  · rw [f3]; exact hc.mechsNext
-  · rw [f3]; exact hc.mechsCur
-  · intro h0; simp only [List.foldl_nil] at h0; omega
-  · rw [f3]
-    exact phase_congr (b := bot s) rfl (phase_stage k hk.2 hw (by omega) hp)
-
-theorem pres_motdLine {cfg : Cfg} {s : St} {v : View} (a : Str) (args : List Str) (n : Str) (hs : v.stage = 6)
-    (hq : s.fastq = [] ∧ s.ev = []) (ha : v.aborted = false) (h : Common cfg (bot s) v ∧ Phase cfg (bot s) v) :
-    Inv cfg (step cfg s ⟨num '3' '7' '2', a :: args, n⟩).st (seeStep v (step cfg s ⟨num '3' '7' '2', a :: args, n⟩)) := by
-  obtain ⟨f1, f2, f3⟩ := step_facts (cfg := cfg) s { s with nick := a } ⟨num '3' '7' '2', a :: args, n⟩
-    (nickSetter_numeric _ _ _ _ _ (show Gen.Conn.nickSetters.contains (num '3' '7' '2') = true by decide))
-  rw [run_none (show dispatch ⟨num '3' '7' '2', a :: args, n⟩ = .none from rfl)] at f1 f2 f3
-  simp only [ok, hq.1, hq.2] at f1 f2
-  rw [seeStep_quiet v _ f2 ha, f1]
-  obtain ⟨hc, hp⟩ := h
-  refine .inr (.inr ⟨⟨?_, ?_, ?_⟩, ?_⟩)
-  · rw [f3]; exact hc.mechsNext
-  · rw [f3]; exact hc.mechsCur
-  · intro h0; simp only [List.foldl_nil] at h0; omega
-  · rw [f3]; exact phase_congr (b := bot s) rfl hp
-
-/-! ### MOTD -/
-
-theorem do375_stub {cfg : Cfg} (hd : cfg.realDriver = false) (s : St)
-    (hf : s.fsm = .INIT_CAP_NEGOTIATION ∨ s.fsm = .INIT_WAITING_MOTD) :
-    do375 cfg s = (if saslMissing cfg s = true then ok (event (.reconnect true none) s) else ok { s with fsm := .INIT_MOTD }) := by
-  unfold do375
-  split
-  · rw [stub_reconnect hd]
-  · unfold transition
-    have hg : Gen.Conn.guardStartMotd.contains s.fsm = true := by
-      rcases hf with hf | hf <;> rw [hf]
-      · exact tabP_motd.2.2.1
-      · exact tabP_motd.2.2.2.1
-    simp only [hg, if_true, tabP_motd.1]
-
-theorem do376_stub {cfg : Cfg} (hd : cfg.realDriver = false) (s : St)
-    (hf : s.fsm = .INIT_CAP_NEGOTIATION ∨ s.fsm = .INIT_WAITING_MOTD ∨ s.fsm = .INIT_MOTD) :
-    do376 cfg s = (if saslMissing cfg s = true then ok (event (.reconnect true none) s)
-      else ok { s with fsm := .CONNECTED, afterConnect := true, altNicks := cfg.alternates }) := by
-  unfold do376
-  split
-  · rw [stub_reconnect hd]
-  · unfold transition
-    have hg : Gen.Conn.guardEndMotd.contains s.fsm = true := by
-      rcases hf with hf | hf | hf <;> rw [hf]
-      · exact tabP_motd.2.2.2.2.1
-      · exact tabP_motd.2.2.2.2.2.1
-      · exact tabP_motd.2.2.2.2.2.2
-    simp only [hg, if_true, tabP_motd.2.1, bind_ok]
-
-theorem inv_aborted {cfg : Cfg} {s : St} {v : View} {r : StepResult} (h : r.events ≠ []) : Inv cfg s (seeStep v r) :=
-  .inl (seeStep_aborted v r h)
-
-theorem phase_fsm_welcome {cfg : Cfg} {b : Bot} {v : View} (hw : canWelcome v = true) (hs : v.stage ≤ 5) (p : Phase cfg b v) :
-    (b.fsm = .INIT_CAP_NEGOTIATION ∨ b.fsm = .INIT_WAITING_MOTD) ∧ v.auth = .none ∧ (v.v3 = true → v.lsOwed = false) ∧
-    (∀ c ∈ b.req, c ∈ b.ack ∨ c ∈ b.nak) := by
-  cases p with
-  | neg h3 he _ _ _ _ _ _ _ _ _ _ => simp [canWelcome, h3, he] at hw
-  | sasl h3 he _ _ _ _ _ _ _ _ => simp [canWelcome, h3, he] at hw
-  | waiting h3 he _ hf ha hl hres => exact ⟨.inr hf, ha, fun _ => hl, hres⟩
-  | nocap h3 _ hf ha hreq => exact ⟨.inl hf, ha, fun h => (by rw [h3] at h; cases h), fun c hc => (by rw [hreq] at hc; cases hc)⟩
-  | motd _ hs6 _ _ _ _ => omega
-
-theorem pres_motdStart {cfg : Cfg} (hd : cfg.realDriver = false) {s : St} {v : View} (a : Str) (args : List Str) (n : Str)
-    (hw : canWelcome v = true) (hs : v.stage = 5)
-    (hq : s.fastq = [] ∧ s.ev = []) (ha : v.aborted = false) (h : Common cfg (bot s) v ∧ Phase cfg (bot s) v) :
-    Inv cfg (step cfg s ⟨num '3' '7' '5', a :: args, n⟩).st
-      (seeStep { v with stage := 6 } (step cfg s ⟨num '3' '7' '5', a :: args, n⟩)) := by
-  obtain ⟨f1, f2, f3⟩ := step_facts (cfg := cfg) s { s with nick := a } ⟨num '3' '7' '5', a :: args, n⟩
-    (nickSetter_numeric _ _ _ _ _ (show Gen.Conn.nickSetters.contains (num '3' '7' '5') = true by decide))
-  obtain ⟨hc, hp⟩ := h
-  obtain ⟨hfsm, hauth, hl, hres⟩ := phase_fsm_welcome hw (by omega) hp
-  have hrun := run_n375 (cfg := cfg) (show dispatch ⟨num '3' '7' '5', a :: args, n⟩ = .n375 from rfl) ({ s with nick := a } : St)
-  have h375 := do375_stub hd ({ s with nick := a } : St) hfsm
-  by_cases hm : saslMissing cfg ({ s with nick := a } : St) = true
-  · rw [if_pos hm] at h375
-    rw [hrun, h375] at f2
-    exact inv_aborted (by rw [f2]; simp [ok, event])
-  · rw [if_neg hm] at h375
-    rw [hrun, h375] at f1 f2 f3
-    simp only [ok, hq.1, hq.2] at f1 f2
-    rw [seeStep_quiet { v with stage := 6 } _ f2 ha, f1]
-    refine .inr (.inr ⟨⟨?_, ?_, ?_⟩, ?_⟩)
-    · rw [f3]; exact hc.mechsNext
-    · rw [f3]; exact hc.mechsCur
-    · intro h0; simp at h0
-    · rw [f3]; exact .motd hw rfl rfl hauth hl hres
-
-theorem pres_endMotd {cfg : Cfg} (hd : cfg.realDriver = false) {s s1 : St} {v' : View} (m : Msg)
-    (hn : nickSetter m s = ok s1) (hdisp : dispatch m = .n376) (hb : bot s1 = { bot s with nick := s1.nick })
-    (he : s1.ev = s.ev) (hfq : s1.fastq = s.fastq)
-    (hf : s.fsm = .INIT_CAP_NEGOTIATION ∨ s.fsm = .INIT_WAITING_MOTD ∨ s.fsm = .INIT_MOTD)
-    (hq : s.fastq = [] ∧ s.ev = []) : Inv cfg (step cfg s m).st (seeStep v' (step cfg s m)) := by
-  obtain ⟨f1, f2, f3⟩ := step_facts (cfg := cfg) s s1 m hn
-  have hf1 : s1.fsm = .INIT_CAP_NEGOTIATION ∨ s1.fsm = .INIT_WAITING_MOTD ∨ s1.fsm = .INIT_MOTD := by
-    have : s1.fsm = s.fsm := congrArg Bot.fsm hb
-    rw [this]; exact hf
-  have h376 := do376_stub hd s1 hf1
-  by_cases hm : saslMissing cfg s1 = true
-  · rw [if_pos hm] at h376
-    rw [run_n376 hdisp, h376] at f2
-    exact inv_aborted (by rw [f2]; simp [ok, event])
-  · rw [if_neg hm] at h376
-    rw [run_n376 hdisp, h376] at f3
-    exact .inr (.inl (congrArg Bot.afterConnect f3))
-
-/-! ### nick collisions before the welcome -/
-
-def isNickOut : Out → Bool
-  | .nick _ => true
-  | .nickRandom => true
-  | _ => false
-
-theorem seeOut_nick (v : View) (o : Out) (h : isNickOut o = true) : seeOut v o = v := by
-  cases o <;> first | rfl | cases h
-
-/-- Irc.do43x before the welcome, the start nick being a tried one: a new NICK is always sent -/
-theorem do43x_sends {cfg : Cfg} (s : St) (ha : s.afterConnect = false) (hn : s.nick = cfg.nick) (ht : cfg.nick ∈ s.tried) :
-    ∃ o alt tr, isNickOut o = true ∧ do43x cfg s = ok (sendMsg o { s with altNicks := alt, tried := tr }) ∧
-      ∀ x ∈ s.tried, x ∈ tr := by
-  have htc : s.tried.contains cfg.nick = true := by simpa using ht
-  unfold do43x
-  rw [if_neg (by rw [ha]; exact Bool.false_ne_true)]
-  unfold getNextNick
-  cases hal : s.altNicks with
-  | nil =>
-    simp only [nickFallback]
-    rw [if_pos htc]
-    exact ⟨.nickRandom, [], s.tried, rfl, by rw [← hal], fun _ h => h⟩
-  | cons a rest =>
-    simp only
-    by_cases hc : s.tried.contains (altNick cfg a) = true
-    · rw [if_pos hc]
-      simp only [nickFallback]
-      rw [if_pos htc]
-      exact ⟨.nickRandom, rest, s.tried, rfl, rfl, fun _ h => h⟩
-    · rw [if_neg hc]
-      have hne : altNick cfg a ≠ s.nick := by
-        intro he; rw [he, hn] at hc; exact hc htc
-      simp only
-      rw [if_neg hne]
-      exact ⟨.nick (altNick cfg a), rest, s.tried ++ [altNick cfg a], rfl, rfl, fun x h => List.mem_append_left _ h⟩
-
-theorem refusal_dispatch (c : Str) (hc : isNickRefusal c = true) (args : List Str) (n : Str) :
-    dispatch ⟨c, args, n⟩ = .n43x ∧ Gen.Conn.nickSetters.contains c = false := by
-  unfold isNickRefusal at hc
-  simp only [Bool.or_eq_true, decide_eq_true_eq] at hc
-  rcases hc with (rfl | rfl) | rfl <;> exact ⟨rfl, by decide⟩
-
-theorem pres_nickRefused {cfg : Cfg} {s : St} {v : View} (c : Str) (args : List Str) (n : Str)
-    (hs : v.stage = 0) (hc : isNickRefusal c = true)
-    (hq : s.fastq = [] ∧ s.ev = []) (ha : v.aborted = false) (h : Common cfg (bot s) v ∧ Phase cfg (bot s) v) :
-    Inv cfg (step cfg s ⟨c, args, n⟩).st (seeStep v (step cfg s ⟨c, args, n⟩)) := by
-  obtain ⟨hd, hns⟩ := refusal_dispatch c hc args n
-  obtain ⟨f1, f2, f3⟩ := step_facts (cfg := cfg) s s ⟨c, args, n⟩ (nickSetter_plain _ _ hns)
-  obtain ⟨hcm, hp⟩ := h
-  obtain ⟨h1, h2, h3⟩ := hcm.nick0 hs
-  obtain ⟨o, alt, tr, ho, hdo, htr⟩ := do43x_sends (cfg := cfg) s h3 h1 h2
-  rw [run_n43x hd, hdo] at f1 f2 f3
-  simp only [ok, sendMsg, hq.1, hq.2, List.nil_append] at f1 f2
-  rw [seeStep_quiet v _ f2 ha, f1]
-  simp only [List.foldl_cons, List.foldl_nil, seeOut_nick v o ho]
-  refine .inr (.inr ⟨⟨?_, ?_, ?_⟩, ?_⟩)
-  · rw [f3]; exact hcm.mechsNext
-  · rw [f3]; exact hcm.mechsCur
-  · intro _; rw [f3]; exact ⟨h1, htr _ h2, h3⟩
-  · rw [f3]; exact phase_congr (b := bot s) rfl hp
-
-/-! ### RPL_SASLMECHS (908): the handler fails, nothing changes -/
-
-theorem pres_mechs {cfg : Cfg} {s : St} {v : View} (args : List Str) (n : Str)
-    (hq : s.fastq = [] ∧ s.ev = []) (ha : v.aborted = false) (h : Common cfg (bot s) v ∧ Phase cfg (bot s) v) :
-    Inv cfg (step cfg s ⟨num '9' '0' '8', args, n⟩).st (seeStep v (step cfg s ⟨num '9' '0' '8', args, n⟩)) := by
-  obtain ⟨f1, f2, f3⟩ := step_facts (cfg := cfg) s s ⟨num '9' '0' '8', args, n⟩
-    (nickSetter_plain _ _ (show Gen.Conn.nickSetters.contains (num '9' '0' '8') = false by decide))
-  have hst : (do908 args s).st = s := by unfold do908; split <;> rfl
-  rw [run_n908 (show dispatch ⟨num '9' '0' '8', args, n⟩ = .n908 from rfl), hst] at f1 f2 f3
-  simp only [hq.1, hq.2] at f1 f2
-  refine inv_unchanged f3 ?_ h
-  rw [seeStep_quiet _ _ f2 ha, f1]; rfl
-
-/-! ### the SASL exchange -/
-
-theorem bot_of_pcore {s s' : St} (h : pcore s' = pcore s) : bot s' = bot s ∧ s'.ev = s.ev := by
-  simp only [pcore, Prod.mk.injEq] at h
-  obtain ⟨h1, h2, h3, h4, h5, h6, h7, h8, h9, h10, h11, h12, h13, h14⟩ := h
-  exact ⟨by simp [bot, *], h14⟩
-
-theorem seeOut_payload (o : Out) (h : isPayloadOut o = true) : ∃ x, ∀ v : View, seeOut v o = { v with auth := x } := by
-  cases o <;> first | exact ⟨_, fun _ => rfl⟩ | cases h
-
-theorem fold_payload_aux (outs : List Out) (hall : ∀ o ∈ outs, isPayloadOut o = true) (v : View) :
-    ∃ x, outs.foldl seeOut v = { v with auth := x } := by
-  induction outs generalizing v with
-  | nil => exact ⟨v.auth, rfl⟩
-  | cons o os ih =>
-    obtain ⟨x, hx⟩ := seeOut_payload o (hall o List.mem_cons_self)
-    obtain ⟨y, hy⟩ := ih (fun q hq => hall q (List.mem_cons_of_mem _ hq)) { v with auth := x }
-    exact ⟨y, by rw [List.foldl_cons, hx, hy]⟩
-
-/-- the server has a complete answer in front of it once the lines of an `Answer` arrived -/
-theorem fold_payload (outs : List Out) (v : View) (h : Answer outs) : outs.foldl seeOut v = { v with auth := .payload } := by
-  obtain ⟨hall, init, o, rfl, hfin⟩ := h
-  obtain ⟨x, hx⟩ := fold_payload_aux init (fun q hq => hall q (List.mem_append_left _ hq)) v
-  rw [List.foldl_append, hx]
-  simp only [List.foldl_cons, List.foldl_nil]
-  cases o with
-  | authPayload c =>
-    simp only [isFinalOut, bne_iff_ne, ne_eq] at hfin
-    simp [seeOut, hfin]
-  | authOpaque => rfl
-  | authAbort => rfl
-  | _ => cases hfin
-
-theorem owed_ne_none {a : AuthSt} (h : a.owed = true) : a ≠ .none := by
-  intro he; rw [he] at h; cases h
-
-theorem phase_sasl_of_auth {cfg : Cfg} {b : Bot} {v : View} (ha : v.auth ≠ .none) (p : Phase cfg b v) :
-    v.v3 = true ∧ v.ended = false ∧ v.stage = 0 ∧ b.fsm = .INIT_SASL ∧ b.saslAuth = false ∧ b.dec = none ∧
-    b.saslCur ≠ none ∧ v.lsOwed = false ∧ (∀ c ∈ b.req, c ∈ b.ack ∨ c ∈ b.nak) := by
-  cases p with
-  | neg _ _ _ _ h _ _ _ _ _ _ _ => exact absurd h ha
-  | sasl h3 he hs hf _ hauth hd hcur hl hres => exact ⟨h3, he, hs, hf, hauth, hd, hcur, hl, hres⟩
-  | waiting _ _ _ _ h _ _ => exact absurd h ha
-  | nocap _ _ _ h _ => exact absurd h ha
-  | motd _ _ _ h _ _ => exact absurd h ha
-
-theorem pres_authContinue {cfg : Cfg} {s : St} {v : View} (c n : Str) (hav : v.auth.owed = true)
-    (hc : c = sPlus ∨ (c.length ≠ Gen.Conn.authenticateChunkSize ∧ (b64decodedLen [c]).isSome = true))
-    (hq : s.fastq = [] ∧ s.ev = []) (ha : v.aborted = false) (h : Common cfg (bot s) v ∧ Phase cfg (bot s) v) :
-    Inv cfg (step cfg s ⟨sAUTHENTICATE, [c], n⟩).st
-      (seeStep { v with auth := .none } (step cfg s ⟨sAUTHENTICATE, [c], n⟩)) := by
-  obtain ⟨hcm, hp⟩ := h
-  obtain ⟨h3, he, hs, hf, hauth, hd, hcur, hl, hres⟩ := phase_sasl_of_auth (owed_ne_none hav) hp
-  obtain ⟨f1, f2, f3⟩ := step_facts (cfg := cfg) s s ⟨sAUTHENTICATE, [c], n⟩
-    (nickSetter_plain _ _ (show Gen.Conn.nickSetters.contains sAUTHENTICATE = false by decide))
-  rw [run_authenticate (show dispatch ⟨sAUTHENTICATE, [c], n⟩ = .authenticate from rfl)] at f1 f2 f3
-  cases hm : s.saslCur with
-  | none => exact absurd hm hcur
-  | some m =>
-    obtain ⟨outs, o1, o3, o4⟩ := doAuthenticate_sasl (cfg := cfg) s c hf hd hc m hm (hcm.mechsCur m hm)
-    obtain ⟨hb, hev⟩ := bot_of_pcore o4
-    simp only at f1 f2 f3
-    rw [o3, hq.1, List.nil_append] at f1
-    rw [hev, hq.2] at f2
-    rw [hb] at f3
-    rw [seeStep_quiet { v with auth := .none } _ f2 ha, f1, fold_payload outs _ o1]
-    refine .inr (.inr ⟨⟨?_, ?_, ?_⟩, ?_⟩)
-    · rw [f3]; exact hcm.mechsNext
-    · rw [f3]; exact hcm.mechsCur
-    · intro _; rw [f3]; exact hcm.nick0 hs
-    · rw [f3]; exact .sasl h3 he hs hf rfl hauth hd hcur hl hres
-
-/-- Irc.do903 in INIT_SASL: authenticated, back to the negotiation state, CAP END at once -/
-theorem do903_sasl {cfg : Cfg} (hd : cfg.realDriver = false) (s : St) (hf : s.fsm = .INIT_SASL) :
-    do903 cfg s = ok (sendMsg .capEnd { s with saslAuth := true, fsm := .INIT_WAITING_MOTD, endCount := s.endCount + 1 }) := by
-  unfold do903 expectState
-  rw [hf, if_pos tabP_sasl.2.2.2.2, bind_ok]
-  unfold onSaslAuthFinished tableTransition
-  simp only [hf, tabP_sasl.2.1, bind_ok, if_true]
-  rw [endCap_neg hd _ rfl]
-  simp [saslMissing]
-
-theorem pres_authOk {cfg : Cfg} (hd : cfg.realDriver = false) {s : St} {v : View} (args : List Str) (n : Str)
-    (hav : v.auth = .payload) (hq : s.fastq = [] ∧ s.ev = []) (ha : v.aborted = false)
-    (h : Common cfg (bot s) v ∧ Phase cfg (bot s) v) :
-    Inv cfg (step cfg s ⟨num '9' '0' '3', args, n⟩).st
-      (seeStep { v with auth := .none } (step cfg s ⟨num '9' '0' '3', args, n⟩)) := by
-  obtain ⟨hcm, hp⟩ := h
-  obtain ⟨h3, he, hs, hf, hauth, hdec, hcur, hl, hres⟩ := phase_sasl_of_auth (by rw [hav]; simp) hp
-  obtain ⟨f1, f2, f3⟩ := step_facts (cfg := cfg) s s ⟨num '9' '0' '3', args, n⟩
-    (nickSetter_plain _ _ (show Gen.Conn.nickSetters.contains (num '9' '0' '3') = false by decide))
-  rw [run_n903 (show dispatch ⟨num '9' '0' '3', args, n⟩ = .n903 from rfl), do903_sasl hd s hf] at f1 f2 f3
-  simp only [ok, sendMsg, hq.1, hq.2, List.nil_append] at f1 f2
-  rw [seeStep_quiet { v with auth := .none } _ f2 ha, f1]
-  simp only [List.foldl_cons, List.foldl_nil, seeOut]
-  refine .inr (.inr ⟨⟨?_, ?_, ?_⟩, ?_⟩)
-  · rw [f3]; exact hcm.mechsNext
-  · rw [f3]; exact hcm.mechsCur
-  · intro _; rw [f3]; exact hcm.nick0 hs
-  · rw [f3]; exact .waiting h3 rfl (by simp only; omega) rfl rfl hl hres
-
-theorem fail_dispatch (c : Str) (hc : isFailNumeric c = true) (args : List Str) (n : Str) :
-    dispatch ⟨c, args, n⟩ = .n904to907 ∧ Gen.Conn.nickSetters.contains c = false := by
-  unfold isFailNumeric at hc
-  simp only [Bool.or_eq_true, decide_eq_true_eq] at hc
-  rcases hc with ((rfl | rfl) | rfl) | rfl <;> exact ⟨rfl, by decide⟩
-
-theorem pres_authFail {cfg : Cfg} (hd : cfg.realDriver = false) {s : St} {v : View} (c : Str) (args : List Str) (n : Str)
-    (hav : v.auth.owed = true) (hc : isFailNumeric c = true) (hq : s.fastq = [] ∧ s.ev = []) (ha : v.aborted = false)
-    (h : Common cfg (bot s) v ∧ Phase cfg (bot s) v) :
-    Inv cfg (step cfg s ⟨c, args, n⟩).st (seeStep { v with auth := .none } (step cfg s ⟨c, args, n⟩)) := by
-  obtain ⟨hcm, hp⟩ := h
-  obtain ⟨h3, he, hs, hf, hauth, hdec, hcur, hl, hres⟩ := phase_sasl_of_auth (owed_ne_none hav) hp
-  obtain ⟨hdisp, hns⟩ := fail_dispatch c hc args n
-  obtain ⟨f1, f2, f3⟩ := step_facts (cfg := cfg) s s ⟨c, args, n⟩ (nickSetter_plain _ _ hns)
-  have ht := tryNext_sasl (cfg := cfg) hd s hf
-  rw [run_n904to907 hdisp] at f1 f2 f3
-  cases hnx : s.saslNext with
-  | cons m rest =>
-    rw [hnx] at ht; simp only at ht
-    rw [ht] at f1 f2 f3
-    simp only [ok, sendMsg, hq.1, hq.2, List.nil_append] at f1 f2
-    rw [seeStep_quiet { v with auth := .none } _ f2 ha, f1]
-    simp only [List.foldl_cons, List.foldl_nil, seeOut]
-    have hmem : m ∈ (bot s).saslNext := by show m ∈ s.saslNext; rw [hnx]; exact List.mem_cons_self
-    refine .inr (.inr ⟨⟨?_, ?_, ?_⟩, ?_⟩)
-    · rw [f3]; intro x hx; exact hcm.mechsNext x (by show x ∈ s.saslNext; rw [hnx]; exact List.mem_cons_of_mem _ hx)
-    · rw [f3]; intro x hx
-      have : m = x := by simpa [bot, sendMsg, ok] using hx
-      rw [← this]; exact hcm.mechsNext m hmem
-    · intro _; rw [f3]; exact hcm.nick0 hs
-    · rw [f3]; exact .sasl h3 he hs hf rfl hauth hdec (by simp [bot, sendMsg, ok]) hl hres
-  | nil =>
-    rw [hnx] at ht; simp only at ht
-    by_cases hr : cfg.required = true
-    · rw [if_pos hr] at ht
-      rw [ht] at f2
-      exact inv_aborted (by rw [f2]; simp [ok, event])
-    · rw [if_neg hr] at ht
-      rw [ht] at f1 f2 f3
-      simp only [ok, sendMsg, hq.1, hq.2, List.nil_append] at f1 f2
-      rw [seeStep_quiet { v with auth := .none } _ f2 ha, f1]
-      simp only [List.foldl_cons, List.foldl_nil, seeOut]
-      refine .inr (.inr ⟨⟨?_, ?_, ?_⟩, ?_⟩)
-      · rw [f3]; intro x hx; simp [bot, sendMsg, ok] at hx
-      · rw [f3]; intro x hx; simp [bot, sendMsg, ok] at hx
-      · intro _; rw [f3]; exact hcm.nick0 hs
-      · rw [f3]; exact .waiting h3 rfl (by simp only; omega) rfl rfl hl hres
-
-/-! ### list / set / dictionary facts used by the CAP moves -/
-
-theorem mem_union {a b : List Str} {c : Str} : c ∈ union a b ↔ c ∈ a ∨ c ∈ b := by
-  unfold union
-  induction b generalizing a with
-  | nil => simp
-  | cons x xs ih =>
-    simp only [List.foldl_cons]
-    split
-    · rename_i hc
-      rw [ih]; simp only [List.mem_cons]
-      have hx : x ∈ a := by simpa using hc
-      constructor
-      · rintro (h | h)
-        · exact .inl h
-        · exact .inr (.inr h)
-      · rintro (h | h | h)
-        · exact .inl h
-        · exact .inl (h ▸ hx)
-        · exact .inr h
-    · rw [ih]; simp only [List.mem_append, List.mem_cons, List.not_mem_nil, or_false]
-      constructor
-      · rintro ((h | h) | h)
-        · exact .inl h
-        · exact .inr (.inl h)
-        · exact .inr (.inr h)
-      · rintro (h | h | h)
-        · exact .inl (.inl h)
-        · exact .inl (.inr h)
-        · exact .inr h
-
-theorem subset_iff {a b : List Str} : subset a b = true ↔ ∀ x ∈ a, x ∈ b := by
-  simp [subset, List.all_eq_true]
-
-theorem dictGet_of_mem_keys {β : Type} {d : List (Str × β)} {k : Str} (h : k ∈ keys d) : ∃ v, dictGet d k = some v := by
-  induction d with
-  | nil => simp [keys] at h
-  | cons p ps ih =>
-    obtain ⟨k', v'⟩ := p
-    unfold dictGet
-    by_cases he : k' = k
-    · exact ⟨v', by simp [he]⟩
-    · simp only [he, if_false]
-      simp only [keys, List.map_cons, List.mem_cons] at h
-      rcases h with h | h
-      · exact absurd h.symm he
-      · exact ih h
-
-theorem fillGo_ne {width : Nat} {l : List Str} : ∀ {cur : List Str} {n : Nat} {line : List Str},
-    cur ≠ [] → line ∈ fillGo width l cur n → line ≠ [] := by
-  induction l with
-  | nil => intro cur n line hc h; simp only [fillGo, List.mem_singleton] at h; rw [h]; exact hc
-  | cons w ws ih =>
-    intro cur n line hc h
-    unfold fillGo at h
-    split at h
-    · exact ih (by simp) h
-    · simp only [List.mem_cons] at h
-      rcases h with rfl | h
-      · exact hc
-      · exact ih (by simp) h
-
-theorem fill_ne {width : Nat} {l line : List Str} (h : line ∈ fill width l) : line ≠ [] := by
-  cases l with
-  | nil => simp [fill] at h
-  | cons w ws => exact fillGo_ne (by simp) h
-
-theorem fillGo_covers {width : Nat} {l : List Str} : ∀ {cur : List Str} {n : Nat} {w : Str},
-    (w ∈ cur ∨ w ∈ l) → ∃ line ∈ fillGo width l cur n, w ∈ line := by
-  induction l with
-  | nil =>
-    intro cur n w h
-    rcases h with h | h
-    · exact ⟨cur, by simp [fillGo], h⟩
-    · simp at h
-  | cons x xs ih =>
-    intro cur n w h
-    unfold fillGo
-    split
-    · apply ih
-      rcases h with h | h
-      · exact .inl (List.mem_append_left _ h)
-      · simp only [List.mem_cons] at h
-        rcases h with rfl | h
-        · exact .inl (by simp)
-        · exact .inr h
-    · rcases h with h | h
-      · exact ⟨cur, List.mem_cons_self, h⟩
-      · simp only [List.mem_cons] at h
-        have : w ∈ [x] ∨ w ∈ xs := by
-          rcases h with rfl | h
-          · exact .inl (by simp)
-          · exact .inr h
-        obtain ⟨line, hl, hw⟩ := ih (cur := [x]) (n := x.length) this
-        exact ⟨line, List.mem_cons_of_mem _ hl, hw⟩
-
-theorem fill_covers {width : Nat} {l : List Str} {w : Str} (h : w ∈ l) : ∃ line ∈ fill width l, w ∈ line := by
-  cases l with
-  | nil => simp at h
-  | cons x xs =>
-    simp only [fill]
-    apply fillGo_covers
-    simp only [List.mem_cons] at h
-    rcases h with rfl | h
-    · exact .inl (by simp)
-    · exact .inr h
-
-theorem fill_eq_nil {width : Nat} {l : List Str} (h : fill width l = []) : l = [] := by
-  cases l with
-  | nil => rfl
-  | cons w ws =>
-    exfalso
-    obtain ⟨line, hl, _⟩ := fill_covers (width := width) (l := w :: ws) (w := w) List.mem_cons_self
-    rw [h] at hl; cases hl
-
-theorem fold_capReq (lines : List (List Str)) (v : View) :
-    (lines.map Out.capReq).foldl seeOut v = { v with reqs := v.reqs ++ lines } := by
-  induction lines generalizing v with
-  | nil => simp
-  | cons l ls ih => simp only [List.map_cons, List.foldl_cons, seeOut, ih, List.append_assoc, List.singleton_append]
-
-theorem mem_flatten_of {ls : List (List Str)} {l : List Str} {c : Str} (hl : l ∈ ls) (hc : c ∈ l) : c ∈ ls.flatten :=
-  List.mem_flatten.mpr ⟨l, hl, hc⟩
-
-/-! ### CAP LS -/
-
-def cfields (b : Bot) := (b.saslNext, b.saslCur, b.nick, b.tried, b.afterConnect)
-
-theorem common_congr {cfg : Cfg} {b b' : Bot} {v : View} (h : cfields b' = cfields b) (c : Common cfg b v) : Common cfg b' v := by
-  simp only [cfields, Prod.mk.injEq] at h
-  obtain ⟨e1, e2, e3, e4, e5⟩ := h
-  exact ⟨e1 ▸ c.mechsNext, e2 ▸ c.mechsCur, fun h0 => by rw [e3, e4, e5]; exact c.nick0 h0⟩
-
-theorem common_view {cfg : Cfg} {b : Bot} {v v' : View} (h : v'.stage = v.stage) (c : Common cfg b v) : Common cfg b v' :=
-  ⟨c.mechsNext, c.mechsCur, fun h0 => c.nick0 (h ▸ h0)⟩
-
-theorem bot_eq_mod_ls {b b' : Bot} (h : ({ b' with ls := [] } : Bot) = { b with ls := [] }) :
-    cfields b' = cfields b ∧ b'.fsm = b.fsm ∧ b'.req = b.req ∧ b'.ack = b.ack ∧ b'.nak = b.nak ∧
-    b'.saslAuth = b.saslAuth ∧ b'.dec = b.dec ∧ b'.saslCur = b.saslCur := by
-  cases b; cases b'
-  simp only [Bot.mk.injEq] at h
-  obtain ⟨h1, _, h3, h4, h5, h6, h7, h8, h9, h10, h11, h12, h13⟩ := h
-  subst_vars
-  simp [cfields]
-
-theorem phase_neg_of_lsOwed {cfg : Cfg} {b : Bot} {v : View} (h3 : v.v3 = true) (ho : v.lsOwed = true) (p : Phase cfg b v) :
-    v.ended = false ∧ v.stage = 0 ∧ b.fsm = .INIT_CAP_NEGOTIATION ∧ v.auth = .none ∧ b.saslAuth = false ∧ b.dec = none ∧
-    b.req = [] ∧ b.ack = [] ∧ b.nak = [] ∧ v.reqs = [] := by
-  cases p with
-  | neg _ he hs hf ha hauth hd hls _ _ _ _ => obtain ⟨a, b, c, d⟩ := hls ho; exact ⟨he, hs, hf, ha, hauth, hd, a, b, c, d⟩
-  | sasl _ _ _ _ _ _ _ _ hl _ => rw [ho] at hl; cases hl
-  | waiting _ _ _ _ _ hl _ => rw [ho] at hl; cases hl
-  | nocap h3' _ _ _ _ => rw [h3] at h3'; cases h3'
-  | motd _ _ _ _ hl _ => have := hl h3; rw [ho] at this; cases this
-
-theorem doCapLs_more {cfg : Cfg} (t caps : Str) (s : St) :
-    doCapLs cfg [t, sLS, sStar, caps] s = ok (addCapabilities cfg caps s) := by
-  unfold doCapLs; simp
-
-theorem doCapLs_final {cfg : Cfg} (t caps : Str) (s : St) :
-    doCapLs cfg [t, sLS, caps] s = capLsFinal cfg (addCapabilities cfg caps s) := by
-  unfold doCapLs; rfl
-
-theorem pres_lsMore {cfg : Cfg} (hd : cfg.realDriver = false) {s : St} {v : View} (t caps n : Str)
-    (h3 : v.v3 = true) (ho : v.lsOwed = true) (hq : s.fastq = [] ∧ s.ev = []) (ha : v.aborted = false)
-    (h : Common cfg (bot s) v ∧ Phase cfg (bot s) v) :
-    Inv cfg (step cfg s ⟨sCAP, [t, sLS, sStar, caps], n⟩).st (seeStep v (step cfg s ⟨sCAP, [t, sLS, sStar, caps], n⟩)) := by
-  obtain ⟨hcm, hp⟩ := h
-  obtain ⟨f1, f2, f3⟩ := step_facts (cfg := cfg) s s ⟨sCAP, [t, sLS, sStar, caps], n⟩
-    (nickSetter_plain _ _ (show Gen.Conn.nickSetters.contains sCAP = false by decide))
-  rw [run_capLs (show dispatch ⟨sCAP, [t, sLS, sStar, caps], n⟩ = .capLs from rfl)] at f1 f2 f3
-  simp only [doCapLs_more, ok] at f1 f2 f3
-  obtain ⟨a1, extra, a2, a3⟩ := addRel_addCapabilities hd caps s
-  cases extra with
-  | cons e es => exact inv_aborted (by rw [f2, a2]; simp)
-  | nil =>
-    obtain ⟨hb, hk⟩ := a3 rfl
-    rw [a1, hq.1] at f1
-    rw [a2, hq.2] at f2
-    rw [seeStep_quiet v _ (by simpa using f2) ha, f1]
-    simp only [List.foldl_nil]
-    obtain ⟨he, hs, hf, hau, hauth, hdec, hr, hak, hnk, hrq⟩ := phase_neg_of_lsOwed h3 ho hp
-    obtain ⟨e_c, e_fsm, e_req, e_ack, e_nak, e_auth, e_dec, _⟩ := bot_eq_mod_ls hb
-    refine .inr (.inr ⟨?_, ?_⟩)
-    · rw [f3]; exact common_congr e_c hcm
-    · rw [f3]
-      refine .neg h3 he hs (e_fsm.trans hf) hau (e_auth.trans hauth) (e_dec.trans hdec)
-        (fun _ => ⟨e_req.trans hr, e_ack.trans hak, e_nak.trans hnk, hrq⟩) (fun h => by rw [ho] at h; cases h) ?_ ?_ ?_
-      · intro c hc; rw [e_req.trans hr] at hc; cases hc
-      · refine ⟨fun c hc => ?_, fun c hc => ?_⟩
-        · rw [e_ack.trans hak] at hc; cases hc
-        · rw [hrq] at hc; simp at hc
-      · intro l hl; rw [hrq] at hl; cases hl
-
-theorem foldl_capReq_eq (lines : List (List Str)) (s : St) :
-    lines.foldl (fun s l => sendMsg (.capReq l) s) s = { s with fastq := s.fastq ++ lines.map Out.capReq } := by
-  induction lines generalizing s with
-  | nil => simp
-  | cons l ls ih => rw [List.foldl_cons, ih]; simp [sendMsg]
-
-theorem requestCaps_eq (caps : List Str) (s : St) :
-    requestCaps caps s = { s with req := union s.req (arrangeCaps s.ack caps),
-                                  fastq := s.fastq ++ (fill capReqWidth (arrangeCaps s.ack caps)).map Out.capReq } := by
-  unfold requestCaps
-  simp only [foldl_capReq_eq]
-
-/-- the end-of-LS branch in INIT_CAP_NEGOTIATION -/
-theorem capLsFinal_neg {cfg : Cfg} (s : St) (hf : s.fsm = .INIT_CAP_NEGOTIATION) :
-    capLsFinal cfg s =
-      (if (fill capReqWidth (arrangeCaps s.ack (newCaps s))).isEmpty = true then endCap cfg (requestCaps (newCaps s) s)
-       else ok (requestCaps (newCaps s) s)) := by
-  unfold capLsFinal expectState
-  rw [if_neg (by rw [hf]; decide), hf, if_pos tabP_ls, bind_ok]
-
-theorem endCap_ev_ne {cfg : Cfg} (hd : cfg.realDriver = false) (s : St) (h : s.ev ≠ []) : (endCap cfg s).st.ev ≠ [] := by
-  unfold endCap
-  split
-  · rw [stub_reconnect hd]; simp [ok, event]
-  · unfold onCapEnd transition
-    simp only
-    by_cases hg : Gen.Conn.guardCapEnd.contains s.fsm = true
-    · rw [if_pos hg, bind_ok]; simpa [ok, sendMsg] using h
-    · rw [if_neg hg]; simpa [raise, R.bind] using h
-
-theorem requestCaps_ev (caps : List Str) (s : St) : (requestCaps caps s).ev = s.ev := by rw [requestCaps_eq]
-
-theorem capLsFinal_ev_ne {cfg : Cfg} (hd : cfg.realDriver = false) (s : St) (h : s.ev ≠ []) : (capLsFinal cfg s).st.ev ≠ [] := by
-  unfold capLsFinal
-  split
-  · exact h
-  · unfold expectState
-    by_cases hg : Gen.Conn.expectDoCapLs.contains s.fsm = true
-    · rw [if_pos hg, bind_ok]
-      split
-      · exact endCap_ev_ne hd _ (by rw [requestCaps_ev]; exact h)
-      · simp only [ok]; rw [requestCaps_ev]; exact h
-    · rw [if_neg hg]; simpa [raise, R.bind] using h
-
-theorem pres_lsFinal {cfg : Cfg} (hd : cfg.realDriver = false) {s : St} {v : View} (t caps n : Str)
-    (h3 : v.v3 = true) (ho : v.lsOwed = true) (hq : s.fastq = [] ∧ s.ev = []) (ha : v.aborted = false)
-    (h : Common cfg (bot s) v ∧ Phase cfg (bot s) v) :
-    Inv cfg (step cfg s ⟨sCAP, [t, sLS, caps], n⟩).st
-      (seeStep { v with lsOwed := false } (step cfg s ⟨sCAP, [t, sLS, caps], n⟩)) := by
-  obtain ⟨hcm, hp⟩ := h
-  obtain ⟨f1, f2, f3⟩ := step_facts (cfg := cfg) s s ⟨sCAP, [t, sLS, caps], n⟩
-    (nickSetter_plain _ _ (show Gen.Conn.nickSetters.contains sCAP = false by decide))
-  rw [run_capLs (show dispatch ⟨sCAP, [t, sLS, caps], n⟩ = .capLs from rfl)] at f1 f2 f3
-  simp only [doCapLs_final] at f1 f2 f3
-  obtain ⟨a1, extra, a2, a3⟩ := addRel_addCapabilities hd caps s
-  cases extra with
-  | cons e es =>
-    exact inv_aborted (by rw [f2]; exact capLsFinal_ev_ne hd _ (by rw [a2]; simp))
-  | nil =>
-    obtain ⟨hb, hk⟩ := a3 rfl
-    obtain ⟨e_c, e_fsm, e_req, e_ack, e_nak, e_auth, e_dec, e_cur⟩ := bot_eq_mod_ls hb
-    obtain ⟨he, hs, hf, hau, hauth, hdec, hr, hak, hnk, hrq⟩ := phase_neg_of_lsOwed h3 ho hp
-    generalize hs1 : addCapabilities cfg caps s = s1 at *
-    have hf1 : s1.fsm = .INIT_CAP_NEGOTIATION := e_fsm.trans hf
-    have hq1 : s1.fastq = [] := a1.trans hq.1
-    have he1 : s1.ev = [] := by rw [a2, hq.2]; rfl
-    rw [capLsFinal_neg s1 hf1] at f1 f2 f3
-    have hreq1 : s1.req = [] := e_req.trans hr
-    have hack1 : s1.ack = [] := e_ack.trans hak
-    by_cases hemp : (fill capReqWidth (arrangeCaps s1.ack (newCaps s1))).isEmpty = true
-    · -- nothing to request: CAP END (or abort when SASL is required)
-      rw [if_pos hemp] at f1 f2 f3
-      have hfill : fill capReqWidth (arrangeCaps s1.ack (newCaps s1)) = [] := by simpa using hemp
-      have hrc : requestCaps (newCaps s1) s1 = { s1 with req := union s1.req (arrangeCaps s1.ack (newCaps s1)) } := by
-        rw [requestCaps_eq, hfill]; simp
-      have he2 := endCap_neg (cfg := cfg) hd ({ s1 with req := union s1.req (arrangeCaps s1.ack (newCaps s1)) } : St) hf1
-      rw [hrc, he2] at f1 f2 f3
-      by_cases hm : saslMissing cfg ({ s1 with req := union s1.req (arrangeCaps s1.ack (newCaps s1)) } : St) = true
-      · rw [if_pos hm] at f2
-        exact inv_aborted (by rw [f2]; simp [ok, event])
-      · rw [if_neg hm] at f1 f2 f3
-        simp only [ok, sendMsg, hq1, he1, List.nil_append] at f1 f2
-        rw [seeStep_quiet { v with lsOwed := false } _ f2 ha, f1]
-        simp only [List.foldl_cons, List.foldl_nil, seeOut]
-        refine .inr (.inr ⟨?_, ?_⟩)
-        · rw [f3]; exact common_congr (b := bot s) e_c (common_view (v := v) rfl hcm)
-        · rw [f3]
-          refine .waiting h3 rfl (by simp only; omega) rfl hau rfl ?_
-          intro c hc
-          have hc' : c ∈ union s1.req (arrangeCaps s1.ack (newCaps s1)) := hc
-          rw [mem_union, hreq1, fill_eq_nil hfill] at hc'
-          rcases hc' with h | h <;> cases h
-    · -- CAP REQ lines go out
-      rw [if_neg hemp] at f1 f2 f3
-      rw [requestCaps_eq] at f1 f2 f3
-      simp only [ok, hq1, he1, List.nil_append] at f1 f2
-      rw [seeStep_quiet { v with lsOwed := false } _ f2 ha, f1, fold_capReq]
-      simp only [hrq, List.nil_append]
-      have hne : fill capReqWidth (arrangeCaps s1.ack (newCaps s1)) ≠ [] := by simpa using hemp
-      refine .inr (.inr ⟨?_, ?_⟩)
-      · rw [f3]; exact common_congr (b := bot s) e_c (common_view (v := v) rfl hcm)
-      · rw [f3]
-        refine .neg h3 he hs hf1 hau (e_auth.trans hauth) (e_dec.trans hdec) (fun h => by cases h) (fun _ => hne) ?_ ?_ ?_
-        · intro c hc
-          have hc' : c ∈ union s1.req (arrangeCaps s1.ack (newCaps s1)) := hc
-          rw [mem_union, hreq1] at hc'
-          rcases hc' with hc' | hc'
-          · cases hc'
-          · obtain ⟨line, hl, hw⟩ := fill_covers (width := capReqWidth) hc'
-            exact .inr (.inr (mem_flatten_of hl hw))
-        · refine ⟨fun c hc => ?_, fun c hc => ?_⟩
-          · have : c ∈ s1.ack := hc
-            rw [hack1] at this; cases this
-          · obtain ⟨line, hl, hw⟩ := List.mem_flatten.mp hc
-            exact (mem_newCaps (mem_arrangeCaps (mem_fill hl c hw))).1
-        · intro l hl; exact fill_ne hl
-
-/-! ### CAP ACK / CAP NAK -/
-
-/-- the state Irc.doCapAck / doCapNak hand to capUpkeep -/
-def ackNakSt (isAck : Bool) (l : List Str) (s : St) : St :=
-  if isAck then { s with ack := union s.ack l, saslAcked := s.saslAcked || (union s.ack l).contains sSasl }
-  else { s with nak := union s.nak l }
-
-theorem doCapAckNak_eq {cfg : Cfg} (isAck : Bool) (t sub caps : Str) (s : St) :
-    doCapAckNak cfg isAck [t, sub, caps] s =
-      (if (splitWs caps).isEmpty = true then raise "AssertionError" s else capUpkeep cfg (ackNakSt isAck (splitWs caps) s)) := by
-  unfold doCapAckNak ackNakSt
-  simp only
-  split
-  · rfl
-  · cases isAck <;> simp
-
-def newAck (isAck : Bool) (l : List Str) (s : St) : List Str := if isAck then union s.ack l else s.ack
-def newNak (isAck : Bool) (l : List Str) (s : St) : List Str := if isAck then s.nak else union s.nak l
-
-theorem ackNakSt_facts (isAck : Bool) (l : List Str) (s : St) :
-    bot (ackNakSt isAck l s) = { bot s with ack := newAck isAck l s, nak := newNak isAck l s } ∧
-    (ackNakSt isAck l s).fastq = s.fastq ∧ (ackNakSt isAck l s).ev = s.ev ∧
-    (ackNakSt isAck l s).ack = newAck isAck l s ∧ (ackNakSt isAck l s).nak = newNak isAck l s ∧
-    (ackNakSt isAck l s).req = s.req ∧ (ackNakSt isAck l s).fsm = s.fsm ∧ (ackNakSt isAck l s).ls = s.ls ∧
-    (ackNakSt isAck l s).saslAuth = s.saslAuth ∧ (ackNakSt isAck l s).saslNext = s.saslNext := by
-  cases isAck <;> simp [ackNakSt, newAck, newNak, bot]
-
-theorem newAckNak_mem (isAck : Bool) (l : List Str) (s : St) :
-    (∀ c ∈ s.ack, c ∈ newAck isAck l s) ∧ (∀ c ∈ s.nak, c ∈ newNak isAck l s) ∧
-    (∀ c ∈ l, c ∈ newAck isAck l s ∨ c ∈ newNak isAck l s) ∧ (∀ c ∈ newAck isAck l s, c ∈ s.ack ∨ c ∈ l) := by
-  cases isAck
-  · simp only [newAck, newNak, Bool.false_eq_true, if_false]
-    exact ⟨fun _ h => h, fun c h => mem_union.mpr (.inl h), fun c h => .inr (mem_union.mpr (.inr h)), fun c h => .inl h⟩
-  · simp only [newAck, newNak, if_true]
-    exact ⟨fun c h => mem_union.mpr (.inl h), fun _ h => h, fun c h => .inl (mem_union.mpr (.inr h)), fun c h => mem_union.mp h⟩
-
-theorem filteredNext_sub {next : List Str} {v : Option Str} {x : Str} (h : x ∈ filteredNext next v) : x ∈ next := by
-  unfold filteredNext at h
-  cases v with
-  | none => exact h
-  | some y => simp only [filterMechs, List.mem_filter] at h; exact h.1
-
-/-- the phases other than the negotiation itself only see the acknowledged / refused sets change -/
-theorem phase_ackNak {cfg : Cfg} {b : Bot} {v : View} (A N : List Str) (rest : List (List Str))
-    (hA : ∀ c ∈ b.ack, c ∈ A) (hN : ∀ c ∈ b.nak, c ∈ N)
-    (hne : b.fsm ≠ .INIT_CAP_NEGOTIATION) (p : Phase cfg b v) : Phase cfg { b with ack := A, nak := N } { v with reqs := rest } := by
-  have grow : (∀ c ∈ b.req, c ∈ b.ack ∨ c ∈ b.nak) → ∀ c ∈ b.req, c ∈ A ∨ c ∈ N := fun h c hc => by
-    rcases h c hc with h | h
-    · exact .inl (hA c h)
-    · exact .inr (hN c h)
-  cases p with
-  | neg _ _ _ hf _ _ _ _ _ _ _ _ => exact absurd hf hne
-  | sasl h3 he hs hf ha hauth hd hcur hl hres => exact .sasl h3 he hs hf ha hauth hd hcur hl (grow hres)
-  | waiting h3 he hs hf ha hl hres => exact .waiting h3 he hs hf ha hl (grow hres)
-  | nocap h3 hs hf ha _ => exact absurd hf hne
-  | motd hw hs hf ha hl hres => exact .motd hw hs hf ha hl (grow hres)
-
-theorem phase_fsm_of_reqs {cfg : Cfg} {b : Bot} {v : View} (h3 : v.v3 = true) (p : Phase cfg b v) :
-    b.fsm = .INIT_CAP_NEGOTIATION ∨ b.fsm = .INIT_SASL ∨ b.fsm = .INIT_WAITING_MOTD ∨ b.fsm = .INIT_MOTD := by
-  cases p with
-  | neg _ _ _ hf _ _ _ _ _ _ _ _ => exact .inl hf
-  | sasl _ _ _ hf _ _ _ _ _ _ => exact .inr (.inl hf)
-  | waiting _ _ _ hf _ _ _ => exact .inr (.inr (.inl hf))
-  | nocap h3' _ _ _ _ => rw [h3] at h3'; cases h3'
-  | motd _ _ hf _ _ _ => exact .inr (.inr (.inr hf))
-
-theorem run_ackNak {cfg : Cfg} (isAck : Bool) (t sub caps n : Str)
-    (hdisp : dispatch ⟨sCAP, [t, sub, caps], n⟩ = (if isAck then .capAck else .capNak)) (s : St) :
-    runHandler cfg ⟨sCAP, [t, sub, caps], n⟩ s = doCapAckNak cfg isAck [t, sub, caps] s := by
-  cases isAck
-  · rw [run_capNak (by simpa using hdisp)]
-  · rw [run_capAck (by simpa using hdisp)]
-
-theorem pres_ackNak {cfg : Cfg} (hd : cfg.realDriver = false) {s : St} {v : View} (isAck : Bool) (t sub caps n : Str)
-    (hdisp : dispatch ⟨sCAP, [t, sub, caps], n⟩ = (if isAck then .capAck else .capNak))
-    (ws : List Str) (rest : List (List Str)) (h3 : v.v3 = true) (hrq : v.reqs = ws :: rest) (hw : splitWs caps = ws)
-    (hq : s.fastq = [] ∧ s.ev = []) (ha : v.aborted = false) (h : Common cfg (bot s) v ∧ Phase cfg (bot s) v) :
-    Inv cfg (step cfg s ⟨sCAP, [t, sub, caps], n⟩).st
-      (seeStep { v with reqs := rest } (step cfg s ⟨sCAP, [t, sub, caps], n⟩)) := by
-  obtain ⟨hcm, hp⟩ := h
-  obtain ⟨f1, f2, f3⟩ := step_facts (cfg := cfg) s s ⟨sCAP, [t, sub, caps], n⟩
-    (nickSetter_plain _ _ (show Gen.Conn.nickSetters.contains sCAP = false by decide))
-  rw [run_ackNak isAck t sub caps n hdisp, doCapAckNak_eq, hw] at f1 f2 f3
-  obtain ⟨b1, b2, b3, b4, b5, b6, b7, b8, b9, b10⟩ := ackNakSt_facts isAck ws s
-  obtain ⟨m1, m2, m3, m4⟩ := newAckNak_mem isAck ws s
-  by_cases hneg : s.fsm = .INIT_CAP_NEGOTIATION
-  · -- the negotiation phase proper
-    cases hp with
-    | sasl _ _ _ hf _ _ _ _ _ _ => rw [show (bot s).fsm = s.fsm from rfl, hneg] at hf; cases hf
-    | waiting _ _ _ hf _ _ _ => rw [show (bot s).fsm = s.fsm from rfl, hneg] at hf; cases hf
-    | nocap h3' _ _ _ _ => rw [h3] at h3'; cases h3'
-    | motd _ _ hf _ _ _ => rw [show (bot s).fsm = s.fsm from rfl, hneg] at hf; cases hf
-    | neg _ he hs hf hau hauth hdec hls howe hacc hkeys hne =>
-      have hlo : v.lsOwed = false := by
-        cases hlo : v.lsOwed with
-        | false => rfl
-        | true => have := (hls hlo).2.2.2; rw [hrq] at this; cases this
-      have hwsne : ws ≠ [] := hne ws (by rw [hrq]; exact List.mem_cons_self)
-      have hwe : ws.isEmpty = false := by cases ws <;> simp_all
-      rw [hwe] at f1 f2 f3
-      simp only [Bool.false_eq_true, if_false] at f1 f2 f3
-      have hfs' : (ackNakSt isAck ws s).fsm = .INIT_CAP_NEGOTIATION := b7.trans hneg
-      rw [capUpkeep_neg hd _ hfs', b4, b5, b6] at f1 f2 f3
-      -- accounting for the new sets
-      have hacc' : ∀ c ∈ s.req, c ∈ newAck isAck ws s ∨ c ∈ newNak isAck ws s ∨ c ∈ rest.flatten := by
-        intro c hc
-        rcases hacc c hc with h | h | h
-        · exact .inl (m1 c h)
-        · exact .inr (.inl (m2 c h))
-        · rw [hrq, List.flatten_cons, List.mem_append] at h
-          rcases h with h | h
-          · rcases m3 c h with h | h
-            · exact .inl h
-            · exact .inr (.inl h)
-          · exact .inr (.inr h)
-      have hkeysA : ∀ c ∈ newAck isAck ws s, c ∈ keys s.ls := by
-        intro c hc
-        rcases m4 c hc with h | h
-        · exact hkeys.1 c h
-        · exact hkeys.2 c (by rw [hrq, List.flatten_cons]; exact List.mem_append_left _ h)
-      by_cases hun : subset (newAck isAck ws s ++ newNak isAck ws s) s.req = true
-      · simp only [hun, Bool.not_true, Bool.false_eq_true, if_false] at f1 f2 f3
-        by_cases hall : subset s.req (newAck isAck ws s ++ newNak isAck ws s) = true
-        · have hresN : ∀ c ∈ s.req, c ∈ newAck isAck ws s ∨ c ∈ newNak isAck ws s := fun c hc =>
-            List.mem_append.mp (subset_iff.mp hall c hc)
-          simp only [hall, if_true] at f1 f2 f3
-          by_cases hsasl : (newAck isAck ws s).contains sSasl = true
-          · -- SASL starts
-            simp only [hsasl, if_true] at f1 f2 f3
-            obtain ⟨v0, hv0⟩ := dictGet_of_mem_keys (hkeysA sSasl (by simpa using hsasl))
-            have hms := maybeStartSasl_neg (cfg := cfg) (ackNakSt isAck ws s) hfs' (b9.trans hauth)
-              (by rw [b4]; exact hsasl) v0 (by rw [b8]; exact hv0)
-            have htn := tryNext_sasl (cfg := cfg) hd
-              ({ ackNakSt isAck ws s with fsm := .INIT_SASL, saslNext := filteredNext (ackNakSt isAck ws s).saslNext v0 } : St) rfl
-            rw [hms, htn] at f1 f2 f3
-            simp only at f1 f2 f3
-            cases hfn : filteredNext (ackNakSt isAck ws s).saslNext v0 with
-            | cons m r =>
-              simp only [hfn, ok, sendMsg, b2, b3, hq.1, hq.2, List.nil_append] at f1 f2 f3
-              rw [seeStep_quiet { v with reqs := rest } _ f2 ha, f1]
-              simp only [List.foldl_cons, List.foldl_nil, seeOut]
-              have hmem : ∀ x ∈ m :: r, x ∈ s.saslNext := fun x hx => by
-                have : x ∈ filteredNext (ackNakSt isAck ws s).saslNext v0 := by rw [hfn]; exact hx
-                exact b10 ▸ filteredNext_sub this
-              refine .inr (.inr ⟨⟨?_, ?_, ?_⟩, ?_⟩)
-              · rw [f3]; intro x hx; exact hcm.mechsNext x (hmem x (List.mem_cons_of_mem _ hx))
-              · rw [f3]; intro x hx
-                have : m = x := by simpa [bot] using hx
-                rw [← this]; exact hcm.mechsNext m (hmem m List.mem_cons_self)
-              · intro _; rw [f3]
-                have := hcm.nick0 hs
-                cases isAck <;> simpa [bot, ackNakSt] using this
-              · rw [f3]; exact .sasl h3 he hs rfl rfl (by cases isAck <;> simpa [bot, ackNakSt] using hauth)
-                  (by cases isAck <;> simpa [bot, ackNakSt] using hdec) (by simp [bot]) hlo
-                  (by show ∀ c ∈ (ackNakSt isAck ws s).req, c ∈ (ackNakSt isAck ws s).ack ∨ c ∈ (ackNakSt isAck ws s).nak
-                      rw [b4, b5, b6]; exact hresN)
-            | nil =>
-              rw [hfn] at f1 f2 f3
-              by_cases hr : cfg.required = true
-              · simp only [hr, if_true, ok, event] at f2
-                exact inv_aborted (by rw [f2]; simp)
-              · simp only [hr, Bool.false_eq_true, if_false, ok, sendMsg, b2, b3, hq.1, hq.2, List.nil_append] at f1 f2 f3
-                rw [seeStep_quiet { v with reqs := rest } _ f2 ha, f1]
-                simp only [List.foldl_cons, List.foldl_nil, seeOut]
-                refine .inr (.inr ⟨⟨?_, ?_, ?_⟩, ?_⟩)
-                · rw [f3]; intro x hx; simp [bot] at hx
-                · rw [f3]; intro x hx; simp [bot] at hx
-                · intro _; rw [f3]
-                  have := hcm.nick0 hs
-                  cases isAck <;> simpa [bot, ackNakSt] using this
-                · rw [f3]; exact .waiting h3 rfl (by simp only; omega) rfl hau hlo
-                    (by show ∀ c ∈ (ackNakSt isAck ws s).req, c ∈ (ackNakSt isAck ws s).ack ∨ c ∈ (ackNakSt isAck ws s).nak
-                        rw [b4, b5, b6]; exact hresN)
-          · -- no sasl: CAP END
-            simp only [hsasl, Bool.false_eq_true, if_false] at f1 f2 f3
-            have hec := endCap_neg (cfg := cfg) hd (ackNakSt isAck ws s) hfs'
-            rw [hec] at f1 f2 f3
-            by_cases hm : saslMissing cfg (ackNakSt isAck ws s) = true
-            · rw [if_pos hm] at f2
-              exact inv_aborted (by rw [f2]; simp [ok, event])
-            · rw [if_neg hm] at f1 f2 f3
-              simp only [ok, sendMsg, b2, b3, hq.1, hq.2, List.nil_append] at f1 f2
-              rw [seeStep_quiet { v with reqs := rest } _ f2 ha, f1]
-              simp only [List.foldl_cons, List.foldl_nil, seeOut]
-              refine .inr (.inr ⟨?_, ?_⟩)
-              · rw [f3]
-                refine common_congr (b := bot s) ?_ (common_view (v := v) rfl hcm)
-                cases isAck <;> simp [cfields, bot, ackNakSt, sendMsg, ok]
-              · rw [f3]; exact .waiting h3 rfl (by simp only; omega) rfl hau hlo
-                  (by show ∀ c ∈ (ackNakSt isAck ws s).req, c ∈ (ackNakSt isAck ws s).ack ∨ c ∈ (ackNakSt isAck ws s).nak
-                      rw [b4, b5, b6]; exact hresN)
-        · -- still waiting for the answer to another CAP REQ
-          simp only [hall, Bool.false_eq_true, if_false, ok, b2, b3, hq.1, hq.2] at f1 f2 f3
-          rw [seeStep_quiet { v with reqs := rest } _ f2 ha, f1]
-          simp only [List.foldl_nil]
-          have hrest : rest ≠ [] := by
-            intro hre
-            apply hall
-            rw [subset_iff]
-            intro c hc
-            rcases hacc' c hc with h | h | h
-            · exact List.mem_append_left _ h
-            · exact List.mem_append_right _ h
-            · rw [hre] at h; simp at h
-          refine .inr (.inr ⟨?_, ?_⟩)
-          · rw [f3, b1]; exact common_congr (b := bot s) rfl (common_view (v := v) rfl hcm)
-          · rw [f3, b1]
-            refine .neg h3 he hs hneg hau hauth hdec (fun h => by rw [hlo] at h; cases h) (fun _ => hrest) hacc' ⟨hkeysA, ?_⟩ ?_
-            · intro c hc
-              exact hkeys.2 c (by rw [hrq, List.flatten_cons]; exact List.mem_append_right _ hc)
-            · intro l hl; exact hne l (by rw [hrq]; exact List.mem_cons_of_mem _ hl)
-      · -- an answer for something that was not requested: the bot drops the connection
-        simp only [hun, Bool.not_false, if_true, ok, event] at f2
-        exact inv_aborted (by rw [f2]; simp)
-  · -- any other phase: capUpkeep's state check fails, only the sets change
-    have hfsm := phase_fsm_of_reqs h3 hp
-    have hcont : Gen.Conn.expectCapUpkeep.contains s.fsm = false := by
-      rcases hfsm with h | h | h | h
-      · exact absurd h hneg
-      · rw [show s.fsm = .INIT_SASL from h]; exact tabP_upkeep.2.1
-      · rw [show s.fsm = .INIT_WAITING_MOTD from h]; exact tabP_upkeep.2.2.1
-      · rw [show s.fsm = .INIT_MOTD from h]; exact tabP_upkeep.2.2.2
-    by_cases hwe : ws.isEmpty = true
-    · simp only [hwe, if_true, raise, hq.1, hq.2] at f1 f2 f3
-      rw [seeStep_quiet { v with reqs := rest } _ f2 ha, f1]
-      simp only [List.foldl_nil]
-      refine .inr (.inr ⟨?_, ?_⟩)
-      · rw [f3]; exact common_view (v := v) rfl hcm
-      · rw [f3]
-        have := phase_ackNak (cfg := cfg) (b := bot s) (v := v) s.ack s.nak rest (fun _ h => h) (fun _ h => h) hneg hp
-        exact this
-    · simp only [hwe, Bool.false_eq_true, if_false] at f1 f2 f3
-      rw [capUpkeep_raises _ (by rw [b7]; exact hcont)] at f1 f2 f3
-      simp only [raise, b2, b3, hq.1, hq.2] at f1 f2 f3
-      rw [seeStep_quiet { v with reqs := rest } _ f2 ha, f1]
-      simp only [List.foldl_nil]
-      refine .inr (.inr ⟨?_, ?_⟩)
-      · rw [f3, b1]; exact common_congr (b := bot s) rfl (common_view (v := v) rfl hcm)
-      · rw [f3, b1]; exact phase_ackNak _ _ rest m1 m2 hneg hp
 
 /-! ### joint histories and the invariant along them -/
 
@@ -1576,7 +18,7 @@ inductive PReach (cfg : Cfg) (base : St) (v3 : Bool) : St → View → Prop
 
 theorem bot_initSt (cfg : Cfg) (base : St) :
     bot (initSt cfg base) = ⟨.INIT_CAP_NEGOTIATION, [], [], [], [], cfg.mechanisms.filter (mechAvailable cfg), none, false, none,
-      cfg.nick, cfg.alternates, [cfg.nick], false⟩ := by
+      cfg.nick, cfg.alternates, [cfg.nick], false, false, 0⟩ := by
   unfold initSt queueConnectMessages transition clearForReset resetSasl
   have h := tab_init
   simp only [h.2, if_true, ok, bot, h.1, List.nil_append]
@@ -1603,15 +45,16 @@ theorem inv_start (cfg : Cfg) (base : St) (v3 : Bool) :
     Inv cfg (start cfg base).st (seeStep { v3 := v3 } (start cfg base)) := by
   obtain ⟨f1, f2, f3⟩ := start_facts cfg base
   rw [seeStep_quiet _ _ f2 rfl, f1, fold_connect]
-  refine .inr (.inr ⟨⟨?_, ?_, ?_⟩, ?_⟩)
+  refine .inr (.inr ⟨⟨?_, ?_, ?_⟩, ?_, ?_⟩)
   · rw [f3, bot_initSt]; intro m hm; exact (List.mem_filter.mp hm).2
   · rw [f3, bot_initSt]; intro m hm; cases hm
   · intro _; rw [f3, bot_initSt]; exact ⟨rfl, by simp, rfl⟩
   · rw [f3, bot_initSt]
+    exact ⟨fun c hc => (by cases hc), fun c hc => (by cases hc), fun c hc => (by cases hc), fun l hl => (by cases hl)⟩
+  · rw [f3, bot_initSt]
     cases v3 with
     | true =>
-      exact .neg rfl rfl rfl rfl rfl rfl rfl (fun _ => ⟨rfl, rfl, rfl, rfl⟩) (fun h => by cases h)
-        (fun c hc => by cases hc) ⟨fun c hc => (by cases hc), fun c hc => (by simp at hc)⟩ (fun l hl => by cases hl)
+      exact .neg rfl rfl rfl rfl rfl rfl rfl (fun _ => ⟨rfl, rfl, rfl, rfl⟩) (fun h => by cases h) rfl
     | false => exact .nocap rfl (by simp) rfl rfl rfl
 
 theorem preach_drained {cfg : Cfg} {base : St} {v3 : Bool} {s : St} {v : View} (r : PReach cfg base v3 s v) :
@@ -1634,9 +77,11 @@ theorem inv_preach {cfg : Cfg} (hd : cfg.realDriver = false) {base : St} {v3 : B
       case noop hdm hn => exact pres_noop _ hdm hn hq hna h
       case lsMore t caps n h3 ho => exact pres_lsMore hd t caps n h3 ho hq hna h
       case lsFinal t caps n h3 ho => exact pres_lsFinal hd t caps n h3 ho hq hna h
-      case ack t caps n ws rest h3 hrq hw => exact pres_ackNak hd true t sACK caps n rfl ws rest h3 hrq hw hq hna h
-      case nak t caps n ws rest h3 hrq hw => exact pres_ackNak hd false t sNAK caps n rfl ws rest h3 hrq hw hq hna h
-      case authContinue c n h3 hav hc => exact pres_authContinue c n hav hc hq hna h
+      case ack t caps n ws rest h3 hrq hne hsub hav => exact pres_ackNak hd true t sACK caps n rfl ws rest h3 hrq hne (fun _ => hav) hq hna h
+      case nak t caps n ws rest h3 hrq hne hsub => exact pres_ackNak hd false t sNAK caps n rfl ws rest h3 hrq hne (fun hc => by cases hc) hq hna h
+      case capNew t caps n h3 ho hne => exact pres_capNew hd t caps n h3 ho hne hq hna h
+      case capDel t caps n h3 ho hne => exact pres_capDel t caps n ho hne hq hna h
+      case authContinue c n h3 hav hrd hc => exact pres_authContinue c n hav hrd hc hq hna h
       case authOk args n h3 hav => exact pres_authOk hd args n hav hq hna h
       case authFail c args n h3 hav hc => exact pres_authFail hd c args n hav hc hq hna h
       case mechs args n hav => exact pres_mechs args n hq hna h
@@ -1645,11 +90,11 @@ theorem inv_preach {cfg : Cfg} (hd : cfg.realDriver = false) {base : St} {v3 : B
       case motdStart a args n hw hs => exact pres_motdStart hd a args n hw hs hq hna h
       case motdLine a args n hw hs => exact pres_motdLine a args n hs hq hna h
       case motdEnd a args n hw hs =>
-        obtain ⟨hcm, hp⟩ := h
+        obtain ⟨hcm, _, hp⟩ := h
         have hf : s.fsm = .INIT_MOTD := by
           cases hp with
-          | neg _ _ hs0 _ _ _ _ _ _ _ _ _ => omega
-          | sasl _ _ hs0 _ _ _ _ _ _ _ => omega
+          | neg _ _ hs0 _ _ _ _ _ _ _ => omega
+          | sasl _ _ hs0 _ _ _ _ _ _ _ _ _ => omega
           | waiting _ _ hs5 _ _ _ _ => omega
           | nocap _ hs5 _ _ _ => omega
           | motd _ _ hf _ _ _ => exact hf
@@ -1657,7 +102,7 @@ theorem inv_preach {cfg : Cfg} (hd : cfg.realDriver = false) {base : St} {v3 : B
           (nickSetter_numeric _ _ _ _ _ (show Gen.Conn.nickSetters.contains (num '3' '7' '6') = true by decide)) rfl rfl rfl rfl
           (.inr (.inr hf)) hq
       case noMotd args n hw hs =>
-        obtain ⟨hcm, hp⟩ := h
+        obtain ⟨hcm, _, hp⟩ := h
         obtain ⟨hfsm, _, _, _⟩ := phase_fsm_welcome hw (by omega) hp
         have hf : s.fsm = .INIT_CAP_NEGOTIATION ∨ s.fsm = .INIT_WAITING_MOTD ∨ s.fsm = .INIT_MOTD := by
           rcases hfsm with h | h
@@ -1678,23 +123,35 @@ def srvPing (v : View) (args : List Str) : Option View :=
   | [_] => some v
   | _ => none
 
+def srvAckNak (v : View) (isAck : Bool) (caps : Str) : Option View :=
+  match v.reqs with
+  | ws :: rest =>
+    if v.v3 = true ∧ splitWs caps ≠ [] ∧ (∀ c ∈ splitWs caps, c ∈ ws) ∧ (isAck = true → ∀ c ∈ splitWs caps, c ∈ v.avail)
+    then some { v with reqs := reqsAfter (splitWs caps) ws rest } else none
+  | [] => none
+
 def srvCap (v : View) (args : List Str) : Option View :=
   match args with
-  | [_, sub, star, _] => if sub = sLS ∧ star = sStar ∧ v.v3 = true ∧ v.lsOwed = true then some v else none
+  | [_, sub, star, caps] =>
+    if sub = sLS ∧ star = sStar ∧ v.v3 = true ∧ v.lsOwed = true then some { v with avail := v.avail ++ lsKeys caps } else none
   | [_, sub, caps] =>
-    if sub = sLS then (if v.v3 = true ∧ v.lsOwed = true then some { v with lsOwed := false } else none)
-    else if sub = sACK ∨ sub = sNAK then
-      (match v.reqs with
-       | ws :: rest => if v.v3 = true ∧ splitWs caps = ws then some { v with reqs := rest } else none
-       | [] => none)
+    if sub = sLS then (if v.v3 = true ∧ v.lsOwed = true then some { v with lsOwed := false, avail := v.avail ++ lsKeys caps } else none)
+    else if sub = sACK then srvAckNak v true caps
+    else if sub = sNAK then srvAckNak v false caps
+    else if sub = sNEW then
+      (if v.v3 = true ∧ v.lsOwed = false ∧ splitWs caps ≠ []
+       then some { v with avail := v.avail ++ lsKeys caps, lateNew := v.lateNew || v.auth.owed || v.ended } else none)
+    else if sub = sDEL then
+      (if v.v3 = true ∧ v.lsOwed = false ∧ splitWs caps ≠ []
+       then some { v with avail := v.avail.filter (fun c => !(delKeys caps).contains c) } else none)
     else none
   | _ => none
 
 def srvAuth (v : View) (args : List Str) : Option View :=
   match args with
-  | [c] => if v.v3 = true ∧ v.auth.owed = true ∧
+  | [c] => if v.v3 = true ∧ v.auth.cont = true ∧ v.rounds < 3 ∧
               (c = sPlus ∨ (c.length ≠ Gen.Conn.authenticateChunkSize ∧ (b64decodedLen [c]).isSome = true))
-           then some { v with auth := .none } else none
+           then some { v with auth := .none, rounds := v.rounds + 1 } else none
   | _ => none
 
 def srvSaslNumeric (v : View) (cmd : Str) : Option View :=
@@ -1754,6 +211,20 @@ theorem srvPing_sound {v v1 : View} {args : List Str} {n : Str} (h : srvPing v a
   · injection h with h; subst h; exact .ping _ _ _
   · cases h
 
+theorem srvAckNak_sound {v v1 : View} {isAck : Bool} {t caps n : Str} (h : srvAckNak v isAck caps = some v1) :
+    SrvMove v ⟨sCAP, [t, if isAck then sACK else sNAK, caps], n⟩ v1 := by
+  unfold srvAckNak at h
+  split at h
+  · rename_i ws rest hreqs
+    split at h
+    · rename_i hcond; injection h with h; subst h
+      obtain ⟨c1, c2, c3, c4⟩ := hcond
+      cases isAck
+      · exact .nak _ _ _ _ ws rest c1 hreqs c2 c3
+      · exact .ack _ _ _ _ ws rest c1 hreqs c2 c3 (c4 rfl)
+    · cases h
+  · cases h
+
 theorem srvCap_sound {v v1 : View} {args : List Str} {n : Str} (h : srvCap v args = some v1) : SrvMove v ⟨sCAP, args, n⟩ v1 := by
   unfold srvCap at h
   split at h
@@ -1767,17 +238,20 @@ theorem srvCap_sound {v v1 : View} {args : List Str} {n : Str} (h : srvCap v arg
       · rename_i hcond; injection h with h; subst h; exact .lsFinal _ _ _ _ hcond.1 hcond.2
       · cases h
     · split at h
-      · rename_i hsub
-        split at h
-        · rename_i ws rest hreqs
-          split at h
-          · rename_i hcond; injection h with h; subst h
-            rcases hsub with rfl | rfl
-            · exact .ack _ _ _ _ ws rest hcond.1 hreqs hcond.2
-            · exact .nak _ _ _ _ ws rest hcond.1 hreqs hcond.2
-          · cases h
-        · cases h
-      · cases h
+      · rename_i hsub; subst hsub; exact srvAckNak_sound (isAck := true) h
+      · split at h
+        · rename_i hsub; subst hsub; exact srvAckNak_sound (isAck := false) h
+        · split at h
+          · rename_i hsub; subst hsub
+            split at h
+            · rename_i hcond; injection h with h; subst h; exact .capNew _ _ _ _ hcond.1 hcond.2.1 hcond.2.2
+            · cases h
+          · split at h
+            · rename_i hsub; subst hsub
+              split at h
+              · rename_i hcond; injection h with h; subst h; exact .capDel _ _ _ _ hcond.1 hcond.2.1 hcond.2.2
+              · cases h
+            · cases h
   · cases h
 
 theorem srvAuth_sound {v v1 : View} {args : List Str} {n : Str} (h : srvAuth v args = some v1) :
@@ -1786,7 +260,7 @@ theorem srvAuth_sound {v v1 : View} {args : List Str} {n : Str} (h : srvAuth v a
   split at h
   · split at h
     · rename_i hcond; injection h with h; subst h
-      exact .authContinue _ _ _ hcond.1 hcond.2.1 hcond.2.2
+      exact .authContinue _ _ _ hcond.1 hcond.2.1 hcond.2.2.1 hcond.2.2.2
     · cases h
   · cases h
 
